@@ -3,13 +3,43 @@ Who may allocate and free nodes and how the counters pair with it; freeing an un
 slot is overwritten; root collapse; clear()/destructor/assignment order (nodes are released through the
 allocator that produced them); swap completeness; leaf chain splices on a finite alias model; size
 accounting; separator maintenance when the last entry of a leaf is removed; legality of every underflow
-resolution; capacity predicates; no dropped rebalancing result."""
+resolution; capacity predicates; no dropped rebalancing result.
+
+Verdict policy of this file: a violation is reported only on positive evidence — a path, a valuation or an
+evaluated state that contradicts the clause, produced from constructs the rule understands.  Where the rule
+merely fails to find what it expects, the answer is dtable.Undecidable (exit 2) unless the absence is
+established in a closed world (every operation on that path is recognised and none has the effect)."""
 from engine import ir, dtable, match, cfg as cfgm
 from engine.ir import kids, walk, strip_casts, const_int, ref_of
 from rules import btcommon as B
 from rules import btprim
 
 BT = B.BT
+Und = dtable.Undecidable
+
+CASTS = ("ImplicitCastExpr", "CStyleCastExpr", "CXXStaticCastExpr", "CXXFunctionalCastExpr", "CXXReinterpretCastExpr",
+         "CXXConstCastExpr")
+CONTROL = ("IfStmt", "WhileStmt", "ForStmt", "DoStmt", "CXXForRangeStmt", "SwitchStmt", "ConditionalOperator", "CXXTryStmt",
+           "GotoStmt")
+
+
+def und(fn, n, what):
+    """cannot decide: names the construct that was not understood"""
+    raise Und("%s: %s: %s" % (fn.nloc(n) if n is not None and n.get("l") else fn.loc, fn.qname, what))
+
+
+def guarded(ck, what, thunk):
+    """one rule that cannot decide does not hide what the others establish; a code shape the rule's own bookkeeping does not
+    expect (an index or key that is not there) is 'cannot decide' as well, never a crash and never a violation"""
+    try:
+        thunk()
+    except ir.AnalysisBroken as e:
+        ck.deferred.append(str(e))
+    except (IndexError, KeyError, TypeError, AttributeError, ValueError) as e:
+        import traceback
+        tb = traceback.extract_tb(e.__traceback__)
+        ck.deferred.append("%s: code shape not understood (%s: %s at rules/c02.py:%s)"
+                           % (what, type(e).__name__, e, tb[-1].lineno if tb else "?"))
 
 
 def node_kind(ty):
@@ -33,7 +63,269 @@ def stats_field(e):
     return None
 
 
+def is_call(z, *names):
+    return z is not None and "callee" in z and (not names or z["callee"]["name"] in names)
+
+
+def this_call(z):
+    """z is a call of a member function on *this"""
+    return is_call(z) and z.get("member_call") and kids(z) and strip_casts(kids(z)[0]) is not None and \
+        strip_casts(kids(z)[0])["k"] == "This"
+
+
+def own_call(tree, z):
+    """the callee if z calls a function of the tree class itself (a member on *this or a static member), else None"""
+    if not is_call(z):
+        return None
+    cal = tree.by_did.get(z["callee"].get("did"))
+    if cal is None or cal.record != BT or cal.body is None:
+        return None
+    if z.get("member_call") and not this_call(z):
+        return None
+    return cal
+
+
+def call_args(z):
+    return kids(z)[1:] if z.get("member_call") else kids(z)
+
+
+def mentions_ref(e, name):
+    return any(z["k"] == "DeclRefExpr" and z["ref"]["name"] == name for z in walk(e))
+
+
+def mentions_member(e, *members):
+    return any(z["k"] == "MemberExpr" and z.get("member") in members for z in walk(e))
+
+
+class Locals:
+    """locals that are initialised once and never written stand for their initialiser (value at the declaration)"""
+
+    def __init__(self, fn):
+        self.inits, self.written, self.refs = {}, set(), set()
+        for n in fn.nodes():
+            k = n["k"]
+            if k == "VarDecl":
+                if kids(n) and kids(n)[0] is not None:
+                    self.inits[n["did"]] = kids(n)[0]
+                if n.get("isref") or (n.get("ty") or "").rstrip().endswith("&"):
+                    self.refs.add(n["did"])
+            elif k in ("BinaryOperator", "CompoundAssignOperator", "CXXOperatorCallExpr"):
+                b = match.binop(n)
+                if b and b[0].endswith("=") and b[0] not in ("==", "!=", "<=", ">="):
+                    self.written.add(ref_of(b[1]))
+                if k == "CXXOperatorCallExpr":
+                    u = match.unop(n, ("++", "--"))
+                    if u:
+                        self.written.add(ref_of(u[1]))
+            elif k == "UnaryOperator" and n.get("op") in ("++", "--", "&"):
+                self.written.add(ref_of(kids(n)[0]))
+        self.written.discard(None)
+
+    def stable(self, did):
+        return did in self.inits and did not in self.written
+
+    def resolve(self, e):
+        """the initialiser behind a chain of stable locals (casts stripped)"""
+        e = strip_casts(e)
+        for _ in range(6):
+            d = ref_of(e)
+            if d is None or not self.stable(d):
+                break
+            e = strip_casts(self.inits[d])
+        return e
+
+    def expand(self, e, env=None, depth=0):
+        """copy of e with stable locals (and, if given, the locals of a dtable run) replaced by their initialisers"""
+        if e is None:
+            return None
+        if e["k"] == "DeclRefExpr" and depth < 6:
+            d = e["ref"]["id"]
+            init = None
+            if env is not None and isinstance(env.get(d), dict) and (d not in self.written or d in self.refs):
+                init = env[d]
+            elif env is None and self.stable(d):
+                init = self.inits[d]
+            if init is not None:
+                return self.expand(init, env, depth + 1)
+        if "ch" not in e:
+            return e
+        out = dict(e)
+        out["ch"] = [self.expand(c, env, depth) for c in e["ch"]]
+        return out
+
+
+def opaque_atom(n, registry=None):
+    """an atom for a condition the rule does not interpret (so that a path through it is still a path); None where
+    the dtable interpreter decomposes the node itself"""
+    k = n["k"]
+    if k in CASTS or k == "ParenExpr":
+        return None
+    if k == "UnaryOperator" and n.get("op") == "!":
+        return None
+    if k == "BinaryOperator" and n.get("op") in ("&&", "||", ","):
+        return None
+    if k in ("ConditionalOperator", "CXXBoolLiteralExpr") or const_int(n) is not None:
+        return None
+    if k == "DeclRefExpr" and (n.get("ty") or "").replace("const ", "") == "bool" and n["ref"].get("kind") in ("local", "param"):
+        return None
+    key = ("other", dtable.describe(n))
+    if registry is not None:
+        registry[key] = n
+    return key, False
+
+
+def with_bool_cmp(atomize):
+    """e == true / e != false / false == e ... are decided as e / !e"""
+    def wrapped(n, run):
+        n1 = strip_casts(n)
+        b = match.binop(n1, ("==", "!=")) if n1 is not None and n1["k"] == "BinaryOperator" else None
+        if b:
+            for x, y in ((b[1], b[2]), (b[2], b[1])):
+                y1 = strip_casts(y)
+                if y1 is not None and y1["k"] == "CXXBoolLiteralExpr":
+                    r = wrapped(x, run)
+                    neg = (b[0] == "==") != bool(const_int(y1))
+                    if isinstance(r, bool):
+                        return r != neg
+                    if isinstance(r, tuple):
+                        return r[0], bool(r[1]) != neg
+        return atomize(n, run)
+    return wrapped
+
+
+def other_atoms(val):
+    return [k for k in val if isinstance(k, tuple) and k and k[0] == "other"]
+
+
+def path_roots(lf):
+    """(index, kind, node) of everything evaluated on a dtable path, in order: 'expr', 'decl' (the VarDecl), 'loop', 'ret'"""
+    out = []
+    for i, ev in enumerate(lf["events"]):
+        if ev[0] in ("expr", "decl", "loop"):
+            out.append((i, ev[0], ev[1]))
+    if lf["stop"][0] == "return" and lf["stop"][1] and lf["stop"][1][0] is not None:
+        out.append((len(lf["events"]), "ret", lf["stop"][1][0]))
+    return out
+
+
+def path_nodes(lf):
+    for i, kind, n in path_roots(lf):
+        if kind == "loop":
+            continue
+        yield from walk(n)
+
+
+def path_loops(lf):
+    return [n for i, kind, n in path_roots(lf) if kind == "loop"]
+
+
+# ------------------------------------------------------------------ call graph of one instantiation
+def callers_map(tree):
+    m = {}
+    for f in tree.fns:
+        if f.body is None:
+            continue
+        for z in f.nodes():
+            if "callee" in z and z["callee"].get("did") in tree.by_did:
+                m.setdefault(z["callee"]["did"], set()).add(f.did)
+    return m
+
+
+def owned_by(tree, cm, fn, owners, seen=None):
+    """every call chain into fn comes through one of the owner functions (fn is an implementation detail of them)"""
+    if fn.name in owners and fn.record == BT:
+        return True
+    seen = set() if seen is None else seen
+    if fn.did in seen:
+        return True
+    seen.add(fn.did)
+    cs = cm.get(fn.did, set()) - {fn.did}
+    if not cs:
+        return False
+    return all(owned_by(tree, cm, tree.by_did[c], owners, seen) for c in cs)
+
+
+def reaches(tree, fn, pred, depth=0, seen=None):
+    """fn or a member function it calls on *this (transitively) contains a node satisfying pred"""
+    seen = set() if seen is None else seen
+    if fn is None or fn.body is None or fn.did in seen or depth > 4:
+        return False
+    seen.add(fn.did)
+    for z in fn.nodes():
+        if pred(z):
+            return True
+        if own_call(tree, z) is not None:
+            if reaches(tree, own_call(tree, z), pred, depth + 1, seen):
+                return True
+    return False
+
+
+def straight_line(fn):
+    return fn.body is not None and not any(z["k"] in CONTROL for z in walk(fn.body))
+
+
 # ------------------------------------------------------------------ who may allocate / free
+def counter_write(z):
+    """(field, kind, amount) if z writes this->stats_.<field>: kind '+' / '-' (amount None if not a constant), 'zero', 'set'"""
+    if z["k"] not in ("UnaryOperator", "BinaryOperator", "CompoundAssignOperator"):
+        return None
+    u = match.unop(z, ("++", "--"))
+    if u:
+        f = stats_field(u[1])
+        return (f, "+" if u[0] == "++" else "-", 1) if f else None
+    b = match.binop(z, ("=", "+=", "-="))
+    if not b or not stats_field(b[1]):
+        return None
+    fld, rhs = stats_field(b[1]), strip_casts(b[2])
+    if b[0] in ("+=", "-="):
+        return fld, b[0][0], const_int(b[2])
+    final = rhs
+    while match.binop(final, ("=",)):
+        final = strip_casts(match.binop(final, ("=",))[2])
+    if const_int(final) == 0:
+        return fld, "zero", 0
+    r = match.binop(rhs, ("+", "-"))
+    if r:
+        if stats_field(r[1]) == fld:
+            return fld, r[0], const_int(r[2])
+        if r[0] == "+" and stats_field(r[2]) == fld:
+            return fld, "+", const_int(r[1])
+    return fld, "set", None
+
+
+def counter_effect(fn, nodes, fields=("leaves", "inner_nodes")):
+    """net change of the node counters over a list of evaluated nodes -> ({field: delta}, unknown)
+    unknown: stats_ is touched in a way that is not a recognised counter update"""
+    delta, unknown, accounted, mentions = {}, None, 0, 0
+    for z in nodes:
+        if z["k"] == "MemberExpr" and match.this_field(z) == "stats_":
+            mentions += 1
+        w = counter_write(z)
+        if w is None:
+            continue
+        fld, kind, amount = w
+        accounted += 1
+        if kind in ("+", "-") and z["k"] == "BinaryOperator":
+            accounted += 1                      # f = f + c mentions stats_ twice
+        if fld not in fields:
+            continue
+        if kind in ("+", "-") and amount is not None:
+            delta[fld] = delta.get(fld, 0) + (amount if kind == "+" else -amount)
+        else:
+            unknown = unknown or z
+    if mentions > accounted and unknown is None:
+        unknown = [z for z in nodes if z["k"] == "MemberExpr" and match.this_field(z) == "stats_"][0]
+    return delta, unknown
+
+
+def is_alloc_call(z):
+    return is_call(z, "allocate") and "allocator" in (z["callee"].get("record") or "")
+
+
+def is_release_call(z):
+    return is_call(z, "deallocate", "destroy") and "allocator" in (z["callee"].get("record") or "")
+
+
 def check_alloc_owner(ck, tree):
     allocs, frees, counter_writes = [], [], []
     for fn in tree.fns:
@@ -46,286 +338,682 @@ def check_alloc_owner(ck, tree):
                 t = kids(z)[0].get("ty") if kids(z) else ""
                 if node_kind(t):
                     frees.append((fn, z, "delete"))
-            if "callee" in z:
-                nm, rec = z["callee"]["name"], z["callee"].get("record") or ""
-                if nm == "allocate" and "allocator" in rec:
-                    allocs.append((fn, z, "allocate"))
-                if nm in ("deallocate", "destroy") and "allocator" in rec:
-                    frees.append((fn, z, nm))
-            u = match.unop(z, ("++", "--")) if z["k"] == "UnaryOperator" else None
-            if u and stats_field(u[1]) in ("leaves", "inner_nodes"):
-                counter_writes.append((fn, z, u[0], stats_field(u[1])))
-            b = match.binop(z, ("=", "+=", "-=")) if z["k"] in ("BinaryOperator", "CompoundAssignOperator") else None
-            if b and stats_field(b[1]) in ("leaves", "inner_nodes"):
-                rhs = strip_casts(b[2])
-                chained = match.binop(rhs, ("=",))
-                zero = const_int(rhs) == 0 or (chained is not None and const_int(chained[2]) == 0)
-                if not (b[0] == "=" and zero):
-                    counter_writes.append((fn, z, b[0], stats_field(b[1])))
+            if is_alloc_call(z):
+                allocs.append((fn, z, "allocate"))
+            if is_release_call(z):
+                frees.append((fn, z, z["callee"]["name"]))
+            w = counter_write(z)
+            if w and w[0] in ("leaves", "inner_nodes") and w[1] != "zero":
+                counter_writes.append((fn, z, w[1] if w[1] == "set" else {"+": "++", "-": "--"}[w[1]], w[0]))
+    # positive evidence: the operation itself, found in a function that is not (part of) an owner
+    cm = callers_map(tree)
+    A, F = ("allocate_leaf", "allocate_inner"), ("free_node",)
     for fn, z, what in allocs:
-        if fn.name not in ("allocate_leaf", "allocate_inner"):
+        if not owned_by(tree, cm, fn, A):
             ck.violation("NODE-ALLOC-OWNER", fn.qname, "alloc:" + what, "nodes are obtained outside allocate_leaf/allocate_inner (%s): "
                          "the node counters and the allocator pairing are bypassed" % what, fn.nloc(z))
     for fn, z, what in frees:
-        if fn.name != "free_node":
+        if not owned_by(tree, cm, fn, F):
             ck.violation("NODE-ALLOC-OWNER", fn.qname, "free:" + what, "nodes are released outside free_node (%s)" % what, fn.nloc(z))
     for fn, z, op, fld in counter_writes:
-        if fn.name not in ("allocate_leaf", "allocate_inner", "free_node"):
+        if not owned_by(tree, cm, fn, A + F):
             ck.violation("NODE-ALLOC-OWNER", fn.qname, "counter:" + fld, "stats_.%s is modified (%s) outside the allocation functions" % (fld, op),
                          fn.nloc(z))
-    # the two allocation functions
     for name, kind, fld, factory in (("allocate_leaf", "leaf", "leaves", "leaf_node_allocator"),
                                      ("allocate_inner", "inner", "inner_nodes", "inner_node_allocator")):
-        fn = tree.one(name)
-        news = [z for z in fn.nodes() if z["k"] == "CXXNewExpr"]
-        al = [z for z in fn.nodes() if "callee" in z and z["callee"]["name"] == "allocate"]
-        fac = [z for z in fn.nodes() if "callee" in z and z["callee"]["name"] in ("leaf_node_allocator", "inner_node_allocator")]
-        cnt = [(op, f) for f2, z, op, f in counter_writes if f2 is fn]
-        init = [z for z in fn.nodes() if "callee" in z and z["callee"]["name"] == "initialize"]
-        problems = []
-        if len(news) != 1 or node_kind(news[0].get("alloc_ty")) != kind or not news[0].get("placement"):
-            problems.append("must construct exactly one %s node in place" % kind)
-        if len(al) != 1 or const_int(kids(al[0])[1]) != 1:
-            problems.append("must allocate(1) exactly once")
-        if [z["callee"]["name"] for z in fac] != [factory]:
-            problems.append("storage must come from %s()" % factory)
-        if cnt != [("++", fld)]:
-            problems.append("must count the node in stats_.%s exactly once (found %s)" % (fld, cnt))
-        if len(init) != 1:
-            problems.append("must initialize() the node")
-        if problems:
-            ck.violation("NODE-ALLOC-OWNER", fn.qname, name, "; ".join(problems), fn.loc)
-        else:
-            ck.ok("NODE-ALLOC-OWNER", tree.where(fn), "placement-new %s node on %s().allocate(1), ++stats_.%s, initialize()" % (kind, factory, fld))
+        guarded(ck, "NODE-ALLOC-OWNER", lambda: check_allocate_fn(ck, tree, tree.one(name), kind, fld, factory))
     for name, kind in (("leaf_node_allocator", "leaf"), ("inner_node_allocator", "inner")):
-        fn = tree.one(name)
-        r = B.single_return(fn)
-        uses = [z for z in walk(r) if match.this_field(z) == "allocator_"]
-        rk = node_kind(strip_casts(r).get("ty")) or node_kind(r.get("ty"))
-        if not uses or rk != kind:
-            ck.violation("NODE-ALLOC-OWNER", fn.qname, name, "%s() must rebind this->allocator_ to the %s node type; returns %s"
-                         % (name, kind, dtable.describe(r)), fn.loc)
+        guarded(ck, "NODE-ALLOC-OWNER", lambda: check_factory(ck, tree, tree.one(name), kind))
+    guarded(ck, "NODE-ALLOC-OWNER", lambda: check_free_node(ck, tree, tree.one("free_node")))
+    guarded(ck, "NODE-ALLOC-OWNER", lambda: check_init_null(ck, tree, tree.one("initialize", BT + "::LeafNode")))
+
+
+FACTORIES = ("leaf_node_allocator", "inner_node_allocator")
+
+
+def flatten_helpers(tree, fn, nodes, depth=0):
+    """nodes plus the bodies of straight-line member helpers called on *this (a step moved into a private helper);
+    -> (nodes, unknown calls)"""
+    out, unknown = [], []
+    for z in nodes:
+        out.append(z)
+        if own_call(tree, z) is not None and z["callee"]["name"] not in FACTORIES:
+            cal = own_call(tree, z)
+            if cal.did != fn.did and depth < 2 and straight_line(cal):
+                sub, u2 = flatten_helpers(tree, cal, list(walk(cal.body)), depth + 1)
+                out += sub
+                unknown += u2
+            else:
+                unknown.append(z)
+    return out, unknown
+
+
+def check_allocate_fn(ck, tree, fn, kind, fld, factory):
+    """on every path: one node of the right kind constructed in place on storage from <factory>().allocate(1), initialised,
+    counted once in stats_.<fld>"""
+    leaves = dtable.explore(fn.body, lambda n, run: None, fn)      # any real branching is reported as not understood
+    for lf in leaves:
+        if path_loops(lf):
+            und(fn, path_loops(lf)[0], "loop in an allocation function")
+        nodes, unknown = flatten_helpers(tree, fn, list(path_nodes(lf)))
+        news = [z for z in nodes if z["k"] == "CXXNewExpr"]
+        ctrs = [z for z in nodes if is_call(z, "construct") and "allocator" in (z["callee"].get("record") or "")]
+        al = [z for z in nodes if is_alloc_call(z)]
+        fac = [z["callee"]["name"] for z in nodes if is_call(z, *FACTORIES)]
+        init = [z for z in nodes if is_call(z, "initialize") and node_kind(z["callee"].get("record"))]
+        delta, cnt_unknown = counter_effect(fn, nodes)
+        for z in nodes:
+            if not is_call(z) or is_alloc_call(z) or is_call(z, "construct", "initialize", "operator new", *FACTORIES):
+                continue
+            if z["k"] in ("CXXConstructExpr", "CXXTemporaryObjectExpr") and \
+                    (node_kind(z["callee"].get("record")) or "allocator" in (z["callee"].get("record") or "")):
+                continue
+            if own_call(tree, z) is not None:
+                continue                         # handled by flatten_helpers
+            unknown.append(z)
+        problems = []
+
+        def missing(what, closed_extra=True):
+            # absence is evidence only in a closed world: every call on the path is one of the recognised kinds
+            if unknown or not closed_extra:
+                und(fn, unknown[0] if unknown else None, "%s not found, and the path contains operations of an unknown kind (%s)"
+                    % (what, dtable.describe(unknown[0]) if unknown else "stats_ access"))
+            problems.append(what + " is missing")
+        # construction
+        built = [(z, node_kind(z.get("alloc_ty")), bool(z.get("placement"))) for z in news]
+        for z in ctrs:                                  # construct(a, p) / a.construct(p): the pointer is the second child
+            built.append((z, node_kind(strip_casts(kids(z)[1]).get("ty")) if len(kids(z)) >= 2 else None, True))
+        if any(k is not None and k != kind for z, k, p in built):
+            problems.append("constructs a %s node" % [k for z, k, p in built if k is not None and k != kind][0])
+        elif any(k == kind and not p for z, k, p in built):
+            problems.append("the %s node is not constructed in place on allocator storage" % kind)
+        elif len([1 for z, k, p in built if k == kind]) > 1:
+            problems.append("constructs %d %s nodes on one path" % (len([1 for z, k, p in built if k == kind]), kind))
+        elif not [1 for z, k, p in built if k == kind]:
+            if built:
+                und(fn, built[0][0], "object construction of an unrecognised type")
+            missing("the in-place construction of the %s node" % kind)
+        # storage
+        if len(al) > 1:
+            problems.append("allocates %d times on one path" % len(al))
+        elif len(al) == 1:
+            args = kids(al[0])[1:]                      # a.allocate(n) / allocator_traits::allocate(a, n)
+            n = const_int(args[0]) if args else None
+            if n is None:
+                und(fn, al[0], "allocate() with a count that is not a constant")
+            ak = node_kind(strip_casts(kids(al[0])[0]).get("ty")) if kids(al[0]) else None
+            if n != 1:
+                problems.append("allocates storage for %d nodes" % n)
+            elif ak is not None and ak != kind:
+                problems.append("the storage is allocated through an allocator for %s nodes" % ak)
         else:
-            ck.ok("NODE-ALLOC-OWNER", tree.where(fn), "rebinds allocator_ to the %s node" % kind)
-    # free_node: per branch the node type, allocator type and counter agree
-    fn = tree.one("free_node")
+            missing("allocate(1)")
+        if fac and any(f != factory for f in fac):
+            problems.append("storage comes from %s(), must come from %s()" % ([f for f in fac if f != factory][0], factory))
+        elif not fac and not any(match.this_field(z) == "allocator_" for z in nodes):
+            # neither the factory nor a rebind of allocator_ written out in place
+            missing("the call of %s()" % factory)
+        # counter
+        if cnt_unknown is not None:
+            und(fn, cnt_unknown, "stats_ is updated in an unrecognised form")
+        if [f for f in delta if f != fld and delta[f]]:
+            problems.append("counts the node in stats_.%s" % [f for f in delta if f != fld and delta[f]][0])
+        elif fld in delta and delta[fld] != 1:
+            problems.append("changes stats_.%s by %+d per node" % (fld, delta[fld]))
+        elif fld not in delta:
+            missing("the increment of stats_.%s" % fld)
+        # initialisation
+        if not init:
+            missing("initialize()")
+        elif any(node_kind(z["callee"].get("record")) != kind for z in init):
+            problems.append("initialises the node as a %s node" % node_kind(init[0]["callee"].get("record")))
+        if problems:
+            ck.violation("NODE-ALLOC-OWNER", fn.qname, fn.name, "; ".join(problems), fn.loc)
+            return
+    ck.ok("NODE-ALLOC-OWNER", tree.where(fn), "placement-new %s node on %s().allocate(1), ++stats_.%s, initialize()" % (kind, factory, fld))
+
+
+def check_factory(ck, tree, fn, kind):
+    """<kind>_node_allocator() returns this->allocator_ rebound to the node type"""
+    r = dtable.stmts_as_expr(kids(fn.body)) if fn.body is not None else None
+    if r is None:
+        r = Locals(fn).expand(B.single_return(fn))
+    rk = node_kind(fn.d.get("ret")) or node_kind(strip_casts(r).get("ty")) or node_kind(r.get("ty"))
+
+    def uses_allocator(e, depth=0):
+        for z in walk(e):
+            if match.this_field(z) == "allocator_":
+                return True
+            if is_call(z) and depth < 3:
+                sub = dtable.inline_call(fn, z)
+                if sub is not None and uses_allocator(sub, depth + 1):
+                    return True
+        return False
+    if rk is not None and rk != kind:
+        ck.violation("NODE-ALLOC-OWNER", fn.qname, fn.name, "%s() must rebind this->allocator_ to the %s node type; returns an allocator "
+                     "for %s nodes" % (fn.name, kind, rk), fn.loc)
+    elif rk is None:
+        und(fn, None, "the node type of the returned allocator is not recognised (%s)" % fn.d.get("ret"))
+    elif uses_allocator(r):
+        ck.ok("NODE-ALLOC-OWNER", tree.where(fn), "rebinds allocator_ to the %s node" % kind)
+    else:
+        # closed world: the returned expression is built from constructor calls only and none of them sees allocator_
+        opaque = [z for z in walk(r) if z["k"] == "DeclRefExpr" or (is_call(z) and z["k"] not in ("CXXConstructExpr", "CXXTemporaryObjectExpr"))]
+        if opaque:
+            und(fn, opaque[0], "the returned allocator is built from %s, which is not understood" % dtable.describe(opaque[0]))
+        ck.violation("NODE-ALLOC-OWNER", fn.qname, fn.name, "%s() must rebind this->allocator_ to the %s node type; returns %s"
+                     % (fn.name, kind, dtable.describe(r)), fn.loc)
+
+
+def check_free_node(ck, tree, fn):
+    """per branch the node type, allocator type and counter agree"""
+    loc = Locals(fn)
+    pdid = fn.params[0]["did"] if fn.params else None
 
     def atomize(n, run):
         n = strip_casts(n)
-        if "callee" in n and n["callee"]["name"] == "is_leafnode":
+        if is_call(n, "is_leafnode"):
             return "leaf", False
+        b = match.binop(n, ("==", "!="))
+        if b:
+            for x, y in ((b[1], b[2]), (b[2], b[1])):
+                f = match.field_of(x)
+                if f and f[1] == "level" and const_int(y) == 0 and ref_of(loc.resolve(f[0])) == pdid:
+                    return "leaf", b[0] == "!="
         return None
-    leaves = dtable.explore(fn.body, atomize, fn)
+    leaves = dtable.explore(fn.body, with_bool_cmp(atomize), fn)
     for v, lf in dtable.table(leaves, None, ["leaf"]):
         kind = "leaf" if v["leaf"] else "inner"
-        seq = []
-        env = lf["run"].env
-        for ev in lf["events"]:
-            if ev[0] != "expr":
-                continue
-            e = strip_casts(ev[1])
-            if "callee" in e and e["callee"]["name"] in ("destroy", "deallocate"):
-                args = kids(e)
-                at = node_kind(strip_casts(args[0]).get("ty"))
-                pt = node_kind(strip_casts(args[1]).get("ty"))
-                src = None
-                d = ref_of(args[0])
-                if d in env and isinstance(env[d], dict):
-                    fac = [z["callee"]["name"] for z in walk(env[d]) if "callee" in z and z["callee"]["name"].endswith("_node_allocator")]
-                    src = fac[0] if fac else None
-                seq.append((e["callee"]["name"], at, pt, src))
-            u = match.unop(e, ("--", "++"))
-            if u and stats_field(u[1]):
-                seq.append((u[0], stats_field(u[1])))
         fld = "leaves" if kind == "leaf" else "inner_nodes"
         fac = kind + "_node_allocator"
-        want = [("destroy", kind, kind, fac), ("deallocate", kind, kind, fac), ("--", fld)]
-        core = [x for x in seq if x[0] in ("destroy", "deallocate")] + [x for x in seq if x[0] in ("--", "++")]
-        if core != want or [x[0] for x in seq if x[0] in ("destroy", "deallocate")] != ["destroy", "deallocate"]:
-            ck.violation("NODE-ALLOC-OWNER", fn.qname, "free_node:" + kind,
-                         "releasing a %s node must destroy and deallocate it as a %s node through %s() and decrement stats_.%s; found %s"
-                         % (kind, kind, fac, fld, seq), fn.loc)
+        env = lf["run"].env
+        if path_loops(lf):
+            und(fn, path_loops(lf)[0], "loop in free_node")
+        rel, unknown = [], []
+        for i, what, root in path_roots(lf):
+            for e in walk(root):
+                if not is_call(e):
+                    continue
+                if is_release_call(e):
+                    args = kids(e)
+                    if len(args) < 2:
+                        und(fn, e, "release call with an unexpected argument list")
+                    at = node_kind(strip_casts(args[0]).get("ty"))
+                    pt = node_kind(strip_casts(args[1]).get("ty"))
+                    origin = args[0]
+                    d = ref_of(args[0])
+                    if d in env and isinstance(env[d], dict):
+                        origin = env[d]
+                    src = [z["callee"]["name"] for z in walk(origin) if is_call(z, *FACTORIES)]
+                    rel.append((i, e["callee"]["name"], at, pt, src[0] if src else None, e))
+                elif (e["callee"]["name"].startswith("~") and node_kind(e["callee"].get("record"))) or \
+                        (is_call(e, "destroy_at") and kids(e) and node_kind(strip_casts(kids(e)[0]).get("ty"))):
+                    # p->~Node() / std::destroy_at(p): what allocator_traits::destroy does for the standard allocator
+                    ptr = kids(e)[0]
+                    k2 = node_kind(e["callee"].get("record")) if e["callee"]["name"].startswith("~") else node_kind(strip_casts(ptr).get("ty"))
+                    rel.append((i, "destroy", k2, node_kind(strip_casts(ptr).get("ty")) or k2, k2 + "_node_allocator", e))
+                elif is_call(e, "is_leafnode", *FACTORIES) or \
+                        (e["k"] in ("CXXConstructExpr", "CXXTemporaryObjectExpr") and "allocator" in (e["callee"].get("record") or "")):
+                    pass
+                else:
+                    unknown.append(e)
+        delta, cnt_unknown = counter_effect(fn, list(path_nodes(lf)))
+        sig = "free_node:" + kind
+        found = [(x[1], x[2], x[3], x[4]) for x in rel] + sorted(delta.items())
+
+        def bad(msg):
+            ck.violation("NODE-ALLOC-OWNER", fn.qname, sig,
+                         "releasing a %s node must destroy and deallocate it as a %s node through %s() and decrement stats_.%s; %s (found %s)"
+                         % (kind, kind, fac, fld, msg, found), fn.loc)
+
+        def missing(what):
+            if unknown:
+                und(fn, unknown[0], "%s of the %s node not found, and the path contains a call of an unknown kind (%s)"
+                    % (what, kind, dtable.describe(unknown[0])))
+            bad("%s is missing" % what)
+        # positive evidence first
+        wrong = [x for x in rel if (x[2] is not None and x[2] != kind) or (x[3] is not None and x[3] != kind) or
+                 (x[4] is not None and x[4] != fac)]
+        des = [x for x in rel if x[1] == "destroy"]
+        dea = [x for x in rel if x[1] == "deallocate"]
+        if wrong:
+            bad("%s is applied with allocator type %s, node type %s, allocator from %s" % (wrong[0][1], wrong[0][2], wrong[0][3], wrong[0][4]))
+        elif len(des) > 1 or len(dea) > 1:
+            bad("the node is %s twice on one path" % ("destroyed" if len(des) > 1 else "deallocated"))
+        elif des and dea and dea[0][0] < des[0][0]:
+            bad("the storage is deallocated before the node is destroyed")
+        elif [f for f in delta if f != fld and delta[f]]:
+            bad("stats_.%s changes" % [f for f in delta if f != fld and delta[f]][0])
+        elif fld in delta and delta[fld] != -1 and cnt_unknown is None:
+            bad("stats_.%s changes by %+d" % (fld, delta[fld]))
         else:
-            ck.ok("NODE-ALLOC-OWNER", tree.where(fn, kind), "destroy + deallocate(%s node, %s()) then --stats_.%s" % (kind, fac, fld))
-    # a fresh leaf has null links (the alias model of LEAFCHAIN-SPLICE relies on it)
-    fn = tree.one("initialize", BT + "::LeafNode")
-    sh = B.Shape(fn, tree=tree)
-    st = B.ShapeState()
-    outs = sh.run(kids(fn.body), st)
-    good = all(s.heap.get(("this", "next_leaf")) == "NULL" and s.heap.get(("this", "prev_leaf")) == "NULL" for s in init_states(fn))
-    if not good:
-        ck.violation("NODE-ALLOC-OWNER", fn.qname, "INIT-NULL", "LeafNode::initialize() must null both chain links", fn.loc)
-    else:
-        ck.ok("NODE-ALLOC-OWNER", tree.where(fn), "fresh leaf: prev_leaf = next_leaf = nullptr")
+            unk = [x for x in rel if x[2] is None or x[3] is None or x[4] is None]
+            if unk:
+                und(fn, unk[0][5], "allocator or node type of %s(%s) not recognised" % (unk[0][1], ", ".join(dtable.describe(a) for a in kids(unk[0][5]))))
+            if cnt_unknown is not None:
+                und(fn, cnt_unknown, "stats_ is updated in an unrecognised form")
+            if not des:
+                missing("destroy()")
+            elif not dea:
+                missing("deallocate()")
+            elif fld not in delta:
+                missing("the decrement of stats_.%s" % fld)
+            else:
+                ck.ok("NODE-ALLOC-OWNER", tree.where(fn, kind), "destroy + deallocate(%s node, %s()) then --stats_.%s" % (kind, fac, fld))
 
 
-def init_states(fn):
-    """LeafNode::initialize(): the links are members of *this"""
-    res = {}
-    for z in fn.nodes():
-        b = match.binop(z, ("=",)) if z["k"] == "BinaryOperator" else None
-        if not b:
-            continue
-        chain = [b[1]]
-        rhs = strip_casts(b[2])
-        while True:
-            bb = match.binop(rhs, ("=",))
-            if not bb:
-                break
-            chain.append(bb[1])
-            rhs = strip_casts(bb[2])
-        if B.is_null(rhs):
-            for l in chain:
-                m = match.this_field(l)
+def check_init_null(ck, tree, fn):
+    """a fresh leaf has null links (the alias model of LEAFCHAIN-SPLICE relies on it): LeafNode::initialize() evaluated"""
+    leaves = dtable.explore(fn.body, lambda n, run: None, fn)
+    for lf in leaves:
+        val, unknown = {}, []
+        if path_loops(lf):
+            und(fn, path_loops(lf)[0], "loop in LeafNode::initialize()")
+
+        def ev(e):
+            e = strip_casts(e)
+            b = match.binop(e, ("=",))
+            if b:
+                v = ev(b[2])
+                m = match.this_field(b[1])
                 if m:
-                    res[m] = "NULL"
-    st = B.ShapeState()
-    st.heap[("this", "next_leaf")] = res.get("next_leaf")
-    st.heap[("this", "prev_leaf")] = res.get("prev_leaf")
-    return [st]
+                    val[m] = v
+                elif ref_of(b[1]) is None:
+                    unknown.append(e)
+                return v
+            if B.is_null(e):
+                return "NULL"
+            if match.this_field(e) in B.LINKS:
+                return val.get(match.this_field(e), "old")
+            return "?"
+        for i, what, root in path_roots(lf):
+            if what == "expr":
+                r = strip_casts(root)
+                if match.binop(r, ("=",)):
+                    ev(r)
+                elif is_call(r, "initialize") and not mentions_member(r, *B.LINKS):
+                    pass                                       # node::initialize(level)
+                else:
+                    unknown.append(r)
+            elif what == "decl" and kids(root) and mentions_member(kids(root)[0], *B.LINKS):
+                unknown.append(root)
+        for m in B.LINKS:
+            got = val.get(m)
+            if got == "NULL":
+                continue
+            if got in ("?",) or unknown:
+                und(fn, unknown[0] if unknown else None, "the value %s receives in LeafNode::initialize() is not understood" % m)
+            if got is None:
+                # never written here: a default member initialiser / constructor may do it
+                ctors = [f for f in tree.fns if f.kind == "ctor" and f.record == BT + "::LeafNode"]
+                if any(m in (i.get("field"), i.get("member"), i.get("name")) or mentions_member(i.get("e"), m) for f in ctors for i in f.inits):
+                    und(fn, None, "%s is not assigned in initialize() but the LeafNode constructor initialises it" % m)
+            ck.violation("NODE-ALLOC-OWNER", fn.qname, "INIT-NULL", "LeafNode::initialize() must null both chain links (%s %s)"
+                         % (m, "is never written" if got is None else "keeps its old value"), fn.loc)
+            return
+    ck.ok("NODE-ALLOC-OWNER", tree.where(fn), "fresh leaf: prev_leaf = next_leaf = nullptr")
 
 
 # ------------------------------------------------------------------ unlink => free before the slot is reused
-def tree_fn_by_did(tree, did):
-    for f in tree.fns:
-        if f.did == did:
-            return f
-    return None
+COPYLIKE = ("copy", "copy_backward", "move", "move_backward", "copy_n", "memmove", "memcpy")
+
+
+def slotuse_delta(z):
+    """amount by which z lowers some node's slotuse (--x->slotuse, x->slotuse -= c, x->slotuse = x->slotuse - c); None if z is
+    no such update, 'set' if slotuse is assigned in another form"""
+    if z["k"] not in ("UnaryOperator", "BinaryOperator", "CompoundAssignOperator"):
+        return None
+    u = match.unop(z, ("++", "--"))
+    if u:
+        f = match.field_of(u[1])
+        return (1 if u[0] == "--" else -1) if f and f[1] == "slotuse" else None
+    b = match.binop(z, ("=", "+=", "-="))
+    if not b:
+        return None
+    f = match.field_of(b[1])
+    if not f or f[1] != "slotuse":
+        return None
+    if b[0] in ("+=", "-="):
+        c = const_int(b[2])
+        return "set" if c is None else (c if b[0] == "-=" else -c)
+    r = match.binop(strip_casts(b[2]), ("-", "+"))
+    if r and match.field_of(r[1]) and match.field_of(r[1])[1] == "slotuse" and match.same_expr(match.field_of(r[1])[0], f[0]) \
+            and const_int(r[2]) is not None:
+        return const_int(r[2]) if r[0] == "-" else -const_int(r[2])
+    return "set"
+
+
+def childid_write(z):
+    """z overwrites entries of some node's childid[] array"""
+    if is_call(z, *COPYLIKE) and len(kids(z)) >= 3 and mentions_member(kids(z)[2], "childid"):
+        return True
+    b = match.binop(z, ("=",)) if z["k"] in ("BinaryOperator",) else None
+    if b:
+        ip = match.index_parts(b[1])
+        if ip and match.field_of(ip[0]) and match.field_of(ip[0])[1] == "childid":
+            return True
+    return False
+
+
+def fixmerge_ops(tree, fn, stmt, atomize, depth=0):
+    """every path through stmt as a list of operations in execution order:
+    ('def', did, expr)  a local/parameter receives a value     ('free', arg, node)   free_node(arg)
+    ('ow', node)        childid[] entries are overwritten       ('dec', amount)      slotuse is lowered
+    ('unk', node, why)  an operation on the child array / fill level of an unknown kind
+    -> list of (valuation, ops)"""
+    out = []
+    for lf in dtable.explore(stmt, atomize, fn):
+        paths = [[]]
+
+        def emit(op):
+            for p in paths:
+                p.append(op)
+        for i, what, root in path_roots(lf):
+            if what == "loop":
+                if any(is_call(z, "free_node") for z in walk(root)):
+                    emit(("unk", root, "free_node() inside a loop"))
+                if any(childid_write(z) for z in walk(root)):
+                    emit(("ow", root))
+                if any(slotuse_delta(z) is not None for z in walk(root)):
+                    emit(("unk", root, "slotuse changed inside a loop"))
+                continue
+            if what == "decl":
+                init = kids(root)[0] if kids(root) else None
+                if init is not None:
+                    scan = init
+                else:
+                    continue
+            else:
+                scan = root
+            # evaluation order inside one full expression: arguments before the call that receives them
+            seq = list(walk(scan))
+            seq.reverse()
+            for z in seq:
+                if is_call(z, "free_node") and len(kids(z)) >= 2:
+                    emit(("free", kids(z)[1], z))
+                elif childid_write(z):
+                    emit(("ow", z))
+                elif slotuse_delta(z) is not None:
+                    d = slotuse_delta(z)
+                    emit(("unk", z, "slotuse assigned in an unrecognised form") if d == "set" else ("dec", d))
+                elif own_call(tree, z) is not None and z["callee"]["name"] != fn.name:
+                    cal = own_call(tree, z)
+                    touches = reaches(tree, cal, lambda q: is_call(q, "free_node") or childid_write(q) or slotuse_delta(q) is not None)
+                    if not touches:
+                        continue
+                    if depth >= 2 or cal.body is None:
+                        emit(("unk", z, "helper %s() not followed" % cal.name))
+                        continue
+                    binds = [("def", p["did"], a) for p, a in zip(cal.params, call_args(z))]
+                    sub = fixmerge_ops(tree, cal, cal.body, atomize, depth + 1)
+                    paths = [p + binds + ops for p in paths for v2, ops in sub]
+                elif is_call(z) and not is_call(z, *COPYLIKE) and not z.get("member_call"):
+                    # a function that receives the child array itself (childid, childid + k), not one element of it
+                    for a in kids(z):
+                        base = strip_casts(a)
+                        while base is not None and match.binop(base, ("+", "-")):
+                            base = strip_casts(match.binop(base, ("+", "-"))[1])
+                        if base is not None and base["k"] == "MemberExpr" and base.get("member") == "childid":
+                            emit(("unk", z, "%s() receives the child array" % z["callee"]["name"]))
+                            break
+            if what == "decl":
+                emit(("def", root["did"], kids(root)[0]))
+        for p in paths:
+            out.append((lf["val"], p))
+    return out
 
 
 def check_free_on_unlink(ck, tree):
     for name in ("erase_one_descend", "erase_iter_descend"):
-        fn = tree.one(name)
-        g = cfgm.CFG(fn)
-        regions = [n for n in walk(fn.body) if n["k"] == "IfStmt" and any(
-            z["k"] == "DeclRefExpr" and z["ref"]["name"] == "btree_fixmerge" for z in walk(kids(n)[0]))]
-        if len(regions) != 1:
-            raise ir.AnalysisBroken("%s: fix-merge region not found" % fn.full)
-        reg = kids(regions[0])[1]
-        host, g_host = fn, g
-        frees = [z for z in walk(reg) if "callee" in z and z["callee"]["name"] == "free_node"]
+        guarded(ck, "FREE-ON-UNLINK", lambda: _one_check_free_on_unlink(ck, tree, name))
+
+
+def _one_check_free_on_unlink(ck, tree, name):
+    fn = tree.one(name)
+    regions = [n for n in walk(fn.body) if n["k"] == "IfStmt" and mentions_ref(kids(n)[0], "btree_fixmerge")]
+    if len(regions) != 1:
+        raise ir.AnalysisBroken("%s: fix-merge region not found" % fn.full)
+    region = regions[0]
+    roles = B.Roles(fn)
+    sig = name + ":fixmerge"
+
+    def atomize(n, run):
+        n1 = strip_casts(n)
+        if is_call(n1, "has") and mentions_ref(n1, "btree_fixmerge"):
+            return "FM", False
+        return opaque_atom(n)
+    paths = [(v, ops) for v, ops in fixmerge_ops(tree, fn, region, with_bool_cmp(atomize)) if v.get("FM") is True]
+    if not paths:
+        und(fn, region, "no path on which the fix-merge flag is set")
+    bad = None
+    for v, ops in paths:
+        frees = [(i, op) for i, op in enumerate(ops) if op[0] == "free"]
+        ows = [(i, op) for i, op in enumerate(ops) if op[0] == "ow"]
+        decs = [op for op in ops if op[0] == "dec"]
+        unk = [op for op in ops if op[0] == "unk"]
+        if len(frees) > 1:
+            bad = ("the emptied child is unlinked from its parent but free_node() is called %d times" % len(frees), frees[1][1][2])
+            break
         if not frees:
-            # the repair may have been moved into a private helper called from the region
-            for z in walk(reg):
-                if "callee" in z and z.get("member_call") and strip_casts(kids(z)[0])["k"] == "This" and z["callee"]["name"] != name:
-                    cal = tree_fn_by_did(tree, z["callee"]["did"])
-                    if cal is not None and any("callee" in q and q["callee"]["name"] == "free_node" for q in cal.nodes()):
-                        host, g_host, reg = cal, cfgm.CFG(cal), cal.body
-                        frees = [q for q in walk(reg) if "callee" in q and q["callee"]["name"] == "free_node"]
-                        break
-        g = g_host
-        fn_host = host
-        copies = []
-        for z in walk(reg):
-            if "callee" in z and z["callee"]["name"] in ("copy", "copy_backward", "move") and len(kids(z)) >= 3:
-                dst = kids(z)[2]
-                if any(x["k"] == "MemberExpr" and x.get("member") == "childid" for x in walk(dst)):
-                    copies.append(z)
-        decs = [z for z in walk(reg) if z["k"] in ("UnaryOperator", "CompoundAssignOperator") and z.get("op") in ("--", "-=") and
-                match.field_of(kids(z)[0]) and match.field_of(kids(z)[0])[1] == "slotuse"]
-        sig = name + ":fixmerge"
-        if len(frees) != 1:
-            ck.violation("FREE-ON-UNLINK", fn.qname, sig, "the emptied child is unlinked from its parent but free_node() is called %d times"
-                         % len(frees), fn.nloc(regions[0]))
-            continue
-        arg = match.index_parts(kids(frees[0])[1])
-        is_child = arg is not None and match.field_of(arg[0]) and match.field_of(arg[0])[1] == "childid"
+            if unk:
+                und(fn, unk[0][1], unk[0][2])
+            # closed world: only free_node() releases nodes (NODE-ALLOC-OWNER) and it is not reached on this path
+            bad = ("the emptied child is unlinked from its parent but free_node() is called 0 times", region)
+            break
+        # which node is freed, and when the pointer was read
+        t, (_, arg, call) = frees[0]
+        e = strip_casts(arg)
+        for _ in range(6):
+            d = ref_of(e)
+            defs = [(i, op) for i, op in enumerate(ops[:t]) if op[0] == "def" and op[1] == d] if d is not None else []
+            if not defs:
+                break
+            t, e = defs[-1][0], strip_casts(defs[-1][1][2])
+        ip = match.index_parts(e)
+        is_child = ip is not None and match.field_of(ip[0]) and match.field_of(ip[0])[1] == "childid"
         if not is_child:
-            ck.violation("FREE-ON-UNLINK", fn.qname, sig, "free_node(%s) does not release the unlinked child" % dtable.describe(kids(frees[0])[1]),
-                         fn_host.nloc(frees[0]))
-            continue
-        if not copies or not decs:
-            ck.violation("FREE-ON-UNLINK", fn.qname, sig, "the freed child stays referenced: childid[] is not closed up / slotuse not decremented",
-                         fn.nloc(regions[0]))
-            continue
-        pf = g.pos_deep(frees[0])
-        bad = [c for c in copies if not g.dominates(pf, g.pos_deep(c))]
-        if bad:
-            ck.violation("FREE-ON-UNLINK", fn.qname, sig, "childid[slot] is overwritten before the node it points to was freed (leak, and the "
-                         "wrong node is freed afterwards)", fn_host.nloc(bad[0]))
-            continue
-        # the emptied node chosen: the test on slotuse precedes
-        ck.ok("FREE-ON-UNLINK", tree.where(fn), "free_node(childid[slot]) dominates the copy that closes the gap; slotuse decremented")
-        # root collapse paths (both neighbours null)
-        roles = B.Roles(fn)
-        for region in B.find_underflow_ifs(fn):
-            then = kids(region)[1]
-            first = [s for s in kids(then) if s["k"] == "IfStmt"][0]
-            leaves = dtable.explore(first, B.underflow_atomize(roles), fn)
-            rec = [z for z in walk(kids(region)[0]) if "callee" in z and z["callee"]["name"] == "is_underflow"][0]
-            kind = "leaf" if "LeafNode" in rec["callee"]["record"] else "inner"
-            found = False
-            for lf in leaves:
-                v = lf["val"]
-                if not (v.get(("null", B.P_LEFT)) and v.get(("null", B.P_RIGHT))):
-                    continue
-                found = True
-                sh = B.Shape(fn, tree=tree)
-                st = B.ShapeState()
-                for i, p in enumerate(fn.params):
-                    if i in (B.P_CURR,):
-                        st.env[p["did"]] = "curr"
-                        st.null["curr"] = False
-                # locals that alias curr
-                for did, init in roles.inits.items():
-                    if roles.param_of(init) == B.P_CURR:
-                        st.env[did] = "curr"
-                st.tf["root_"] = "curr"
-                seq = []
-                freed = []
-                for ev in lf["events"]:
-                    if ev[0] != "expr":
-                        continue
-                    e = ev[1]
-                    fr = [z for z in walk(e) if "callee" in z and z["callee"]["name"] == "free_node"]
-                    if fr:
-                        freed.append(sh.ev(kids(fr[0])[1], st))
-                        seq.append("free")
-                        continue
-                    before = dict(st.tf)
-                    sh.ev(e, st)
-                    if st.tf != before:
-                        seq.append("owner")
-                stop = lf["stop"][0]
-                sig2 = "%s:root-%s" % (name, kind)
-                if freed != ["curr"]:
-                    ck.violation("ROOT-COLLAPSE", fn.qname, sig2, "the %s root that ran empty must be freed exactly once (freed: %s)"
-                                 % (kind, freed), fn.nloc(first))
-                elif stop != "return":
-                    ck.violation("ROOT-COLLAPSE", fn.qname, sig2, "execution continues with the freed root", fn.nloc(first))
-                elif kind == "leaf" and not (st.tf.get("root_") == "NULL" and st.tf.get("head_leaf_") == "NULL" and st.tf.get("tail_leaf_") == "NULL"):
-                    ck.violation("ROOT-COLLAPSE", fn.qname, sig2, "after freeing the last leaf root_/head_leaf_/tail_leaf_ must all be null; "
-                                 "root_=%s head_leaf_=%s tail_leaf_=%s" % (st.tf.get("root_"), st.tf.get("head_leaf_"), st.tf.get("tail_leaf_")),
-                                 fn.nloc(first))
-                elif kind == "inner" and (st.tf.get("root_") in ("curr", "NULL") or not root_is_child0(lf, roles)):
-                    ck.violation("ROOT-COLLAPSE", fn.qname, sig2, "the only child must become the root before the old root is freed",
-                                 fn.nloc(first))
-                else:
-                    ck.ok("ROOT-COLLAPSE", tree.where(fn, kind), "freed once, owners redirected, returns")
-            if not found:
-                raise ir.AnalysisBroken("%s: no path for the root case in the %s region" % (fn.full, kind))
+            if roles.param_of(e) is not None or match.this_field(e) is not None:
+                bad = ("free_node(%s) does not release the unlinked child" % dtable.describe(arg), call)
+                break
+            und(fn, call, "free_node(%s): the node released is not understood" % dtable.describe(arg))
+        if any(i < t for i, op in ows):
+            bad = ("childid[slot] is overwritten before the node it points to was freed (leak, and the wrong node is freed afterwards)",
+                   [op for i, op in ows if i < t][0][1])
+            break
+        if not ows or not decs:
+            if unk:
+                und(fn, unk[0][1], unk[0][2])
+            bad = ("the freed child stays referenced: childid[] is not closed up / slotuse not decremented", region)
+            break
+    if bad:
+        ck.violation("FREE-ON-UNLINK", fn.qname, sig, bad[0], fn.nloc(bad[1]) if bad[1].get("l") else fn.nloc(region))
+    else:
+        ck.ok("FREE-ON-UNLINK", tree.where(fn), "%d paths: childid[slot] is read for free_node() before the copy that closes the gap; "
+              "slotuse decremented" % len(paths))
 
 
-def root_is_child0(lf, roles):
-    for ev in lf["events"]:
-        if ev[0] != "expr":
+class RootShape(B.Shape):
+    """alias model of the root-collapse paths: the children of the old root are symbols child<i>; reading through a freed
+    node is a problem"""
+
+    def __init__(self, fn, tree=None):
+        B.Shape.__init__(self, fn, tree=tree)
+        self.freed = set()
+
+    def ev(self, e, st):
+        e0 = strip_casts(e)
+        ip = match.index_parts(e0) if e0 is not None else None
+        if ip:
+            f = match.field_of(ip[0])
+            if f and f[1] == "childid":
+                base = self.ev(f[0], st)
+                if base in self.freed:
+                    st.problems.append("line %s: %s is read after the node was freed" % (e0.get("l"), dtable.describe(e0)))
+                if base == "curr":
+                    c = const_int(ip[1])
+                    return "child%d" % c if c is not None else "child?"
+                return None
+        return B.Shape.ev(self, e, st)
+
+
+def check_root_collapse(ck, tree):
+    for name in ("erase_one_descend", "erase_iter_descend"):
+        guarded(ck, "ROOT-COLLAPSE", lambda: _one_check_root_collapse(ck, tree, name))
+
+
+def _one_check_root_collapse(ck, tree, name):
+    fn = tree.one(name)
+    roles = B.Roles(fn)
+    for region in B.find_underflow_ifs(fn):
+        rec = [z for z in walk(kids(region)[0]) if is_call(z, "is_underflow")][0]
+        kind = "leaf" if "LeafNode" in rec["callee"]["record"] else "inner"
+        ua = B.underflow_atomize(roles)
+
+        def atomize(n, run):
+            r = ua(n, run)
+            if r is not None:
+                return r
+            n1 = strip_casts(n)
+            if is_call(n1, "is_underflow"):
+                return ("uf",), False
+            return opaque_atom(n)
+        leaves = dtable.explore(region, atomize, fn)
+        sig2 = "%s:root-%s" % (name, kind)
+        found = 0
+        verdict = None
+        for lf in leaves:
+            v = lf["val"]
+            if not (v.get(("null", B.P_LEFT)) and v.get(("null", B.P_RIGHT))):
+                continue
+            found += 1
+            verdict = verdict or root_path(tree, fn, roles, kind, region, lf)
+        if not found:
+            raise ir.AnalysisBroken("%s: no path for the root case in the %s region" % (fn.full, kind))
+        if verdict:
+            ck.violation("ROOT-COLLAPSE", fn.qname, sig2, verdict, fn.nloc(region))
+        else:
+            ck.ok("ROOT-COLLAPSE", tree.where(fn, kind), "freed once, owners redirected, returns")
+
+
+def root_path(tree, fn, roles, kind, region, lf):
+    """evaluates one path on which the node has no neighbours (it is the root); -> message of a contradiction or None"""
+    sh = RootShape(fn, tree=tree)
+    st = B.ShapeState()
+    for i, p in enumerate(fn.params):
+        if i == B.P_CURR:
+            st.env[p["did"]] = "curr"
+            st.null["curr"] = False
+    for did, init in roles.inits.items():          # typed copies of curr declared before the region
+        if roles.param_of(init) == B.P_CURR:
+            st.env[did] = "curr"
+    st.tf["root_"] = "curr"
+    if kind == "leaf":
+        st.tf["head_leaf_"] = st.tf["tail_leaf_"] = "curr"     # the only leaf is both ends of the chain
+    freed = []
+    for i, what, root in path_roots(lf):
+        if what == "loop":
+            if mentions_member(root, *(B.OWNERS + B.LINKS)) or any(is_call(z, "free_node") for z in walk(root)):
+                und(fn, root, "loop on the root-collapse path")
             continue
-        b = match.binop(ev[1], ("=",))
-        if b and match.this_field(b[1]) == "root_":
-            ip = match.index_parts(b[2])
-            if ip and match.field_of(ip[0]) and match.field_of(ip[0])[1] == "childid" and const_int(ip[1]) == 0 and \
-                    roles.param_of(match.field_of(ip[0])[0]) == B.P_CURR:
-                return True
-    return False
+        if what == "decl":
+            init = kids(root)[0] if kids(root) else None
+            if init is not None:
+                val = sh.ev(init, st)
+                if val is not None or "*" in (root.get("ty") or ""):
+                    st.env[root["did"]] = val if val is not None else "unknown:%s" % root.get("name")
+            continue
+        e = root
+        if sh.freed and any(is_call(z, *B.REBAL) for z in walk(e)):
+            z = [z for z in walk(e) if is_call(z, *B.REBAL)][0]
+            return "execution continues with the freed root: %s() is called at line %s" % (z["callee"]["name"], z.get("l"))
+        for z in walk(e):
+            if own_call(tree, z) is not None and not is_call(z, "free_node", *B.REBAL):
+                cal = own_call(tree, z)
+                if reaches(tree, cal, lambda q: is_call(q, "free_node") or
+                           (q["k"] == "MemberExpr" and q.get("member") in B.OWNERS and match.this_field(q))):
+                    und(fn, z, "helper %s() on the root-collapse path touches the owners / frees nodes" % cal.name)
+        fr = [z for z in walk(e) if is_call(z, "free_node")]
+        if fr:
+            sym = sh.ev(kids(fr[0])[1], st)
+            freed.append(sym)
+            sh.freed.add(sym)
+            continue
+        # use of the freed root after the free
+        if sh.freed:
+            for z in walk(e):
+                if z["k"] == "MemberExpr" and z.get("arrow") and kids(z) and strip_casts(kids(z)[0])["k"] != "This":
+                    if sh.ev(kids(z)[0], st) in sh.freed:
+                        return "execution continues with the freed root: %s at line %s" % (dtable.describe(z), z.get("l"))
+                if is_call(z) and not is_call(z, "free_node"):
+                    for a in kids(z):
+                        if "*" in (strip_casts(a).get("ty") or "") and strip_casts(a)["k"] == "DeclRefExpr" and sh.ev(a, st) in sh.freed:
+                            return "execution continues with the freed root: it is passed to %s() at line %s" % (z["callee"]["name"], z.get("l"))
+        if what == "ret":
+            continue
+        sh.ev(e, st)
+    if st.problems:
+        return st.problems[0]
+
+    def vague(x):
+        return x is None or x == "unknown" or str(x).startswith(("unknown:", "var:", "child?"))
+    if any(vague(x) for x in freed):
+        und(fn, region, "the node freed on the root path is not understood (%s)" % freed)
+    if freed != ["curr"]:
+        return "the %s root that ran empty must be freed exactly once (freed: %s)" % (kind, freed)
+    stop = lf["stop"][0]
+    if stop != "return":
+        # the region ends; what follows it must be the function's return
+        holder = fn.parent(region)
+        sibs = kids(holder) if holder is not None else []
+        nxt = [s for i, s in enumerate(sibs) if i > 0 and sibs[i - 1] is region]
+        if stop != "end" or not nxt or nxt[0] is None or nxt[0]["k"] != "ReturnStmt" or \
+                any(z["k"] == "MemberExpr" and z.get("arrow") for z in walk(nxt[0])):
+            und(fn, region, "the root path leaves the region without returning (%s); what follows is not evaluated" % stop)
+    owners = {o: st.tf.get(o) for o in B.OWNERS}
+    if kind == "leaf":
+        stale = [o for o in B.OWNERS if owners[o] == "curr"]
+        if stale:
+            return ("after freeing the last leaf root_/head_leaf_/tail_leaf_ must all be null; %s still point%s to the freed leaf"
+                    % (", ".join(stale), "s" if len(stale) == 1 else ""))
+        if any(owners[o] != "NULL" for o in B.OWNERS):
+            und(fn, region, "owners after the root leaf was freed: %s" % owners)
+        return None
+    if owners["root_"] in ("curr", "NULL"):
+        return "the only child must become the root before the old root is freed (root_ is %s afterwards)" % \
+            ("the freed node" if owners["root_"] == "curr" else "null")
+    if owners["root_"] != "child0":
+        if str(owners["root_"]).startswith("child") and owners["root_"] != "child?":
+            return "the only child of the emptied root is childid[0]; root_ becomes %s" % owners["root_"]
+        und(fn, region, "root_ after the collapse is %s" % owners["root_"])
+    return None
 
 
 # ------------------------------------------------------------------ clear / destructor / assignment
-def this_calls(fn, name):
-    return [z for z in fn.nodes() if "callee" in z and z["callee"]["name"] == name and z.get("member_call") and
-            strip_casts(kids(z)[0])["k"] == "This"]
+def calls_reaching(tree, fn, name):
+    """calls on *this in fn that are name() or a helper that (transitively) calls name()"""
+    out = []
+    for z in fn.nodes():
+        cal = own_call(tree, z)
+        if cal is None:
+            continue
+        if is_call(z, name):
+            out.append(z)
+        elif cal.did != fn.did and reaches(tree, cal, lambda q: is_call(q, name) and own_call(tree, q) is not None):
+            out.append(z)
+    return out
+
+
+STATS_FIELDS = ("size", "leaves", "inner_nodes")
 
 
 def check_clear(ck, tree):
+    guarded(ck, "CLEAR-RESET", lambda: check_clear_fn(ck, tree))
+    guarded(ck, "CLEAR-RESET", lambda: check_dtor(ck, tree))
+    for name in ("clear_recursive", "copy_recursive"):
+        guarded(ck, "CHILD-RANGE", lambda: check_child_loops(ck, tree, name))
+
+
+def check_clear_fn(ck, tree):
     fn = tree.one("clear")
 
     def atomize(n, run):
@@ -333,97 +1021,299 @@ def check_clear(ck, tree):
         if pt is not None and match.this_field(pt) == "root_":
             return "root", False
         b = match.binop(n, ("!=", "=="))
-        if b and match.this_field(b[1]) == "root_" and B.is_null(b[2]):
-            return "root", b[0] == "=="
+        if b:
+            for x, y in ((b[1], b[2]), (b[2], b[1])):
+                if match.this_field(x) == "root_" and B.is_null(y):
+                    return "root", b[0] == "=="
         return None
-    leaves = dtable.explore(fn.body, atomize, fn)
+    leaves = dtable.explore(fn.body, with_bool_cmp(atomize), fn)
     for v, lf in dtable.table(leaves, None, ["root"]):
-        seq = []
-        for ev in lf["events"]:
-            if ev[0] != "expr":
-                continue
-            e = strip_casts(ev[1])
-            if "callee" in e and e["callee"]["name"] in ("clear_recursive", "free_node"):
-                a = kids(e)[1]
-                seq.append((e["callee"]["name"], match.this_field(a)))
-                continue
-            # chained assignments
+        # evaluation of the path on the alias model: R is the root, H/T the ends of the leaf chain
+        sh = B.Shape(fn, tree=tree)
+        st = B.ShapeState()
+        st.tf.update({"root_": "R" if v["root"] else "NULL", "head_leaf_": "H" if v["root"] else "NULL",
+                      "tail_leaf_": "T" if v["root"] else "NULL"})
+        st.null["R"] = False
+        seq, zeroed, unknown = [], set(), []
+        flags = {"reset": False}
+
+        def do_decl(v):
+            init = kids(v)[0] if kids(v) else None
+            if init is not None:
+                val = sh.ev(init, st)
+                if val is not None or "*" in (v.get("ty") or ""):
+                    st.env[v["did"]] = val if val is not None else "unknown:%s" % v.get("name")
+
+        def do_expr(root, depth=0):
+            e = strip_casts(root)
+            if is_call(e, "clear_recursive", "free_node") and own_call(tree, e) is not None:
+                seq.append((e["callee"]["name"], sh.ev(call_args(e)[0], st)))
+                return
+            handled = False
             cur = e
             while True:
                 b = match.binop(cur, ("=",))
                 if not b:
                     break
                 tf = match.this_field(b[1])
-                rhs = strip_casts(b[2])
-                final = rhs
-                while match.binop(final, ("=",)):
-                    final = strip_casts(match.binop(final, ("=",))[2])
-                if tf in B.OWNERS:
-                    seq.append(("null" if B.is_null(final) else "set", tf))
-                elif tf == "stats_":
-                    seq.append(("reset", "stats_"))
-                cur = rhs
+                if tf == "stats_":
+                    flags["reset"] = handled = True
+                elif stats_field(b[1]):
+                    w = counter_write(cur) if cur["k"] == "BinaryOperator" else None
+                    if w and w[1] == "zero":
+                        zeroed.add(w[0])
+                        handled = True
+                elif tf in B.OWNERS or ref_of(b[1]) is not None:
+                    handled = True
+                cur = strip_casts(b[2])
+            if handled:
+                sh.ev(e, st)                    # owner / local assignments (chains included)
+                return
+            if own_call(tree, e) is not None and depth < 2:
+                cal = own_call(tree, e)
+                if cal.did != fn.did and straight_line(cal):
+                    # a step of clear() moved into a private helper: executed in place
+                    for p, a in zip(cal.params, call_args(e)):
+                        val = sh.ev(a, st)
+                        if val is not None or "*" in (p.get("ty") or ""):
+                            st.env[p["did"]] = val if val is not None else "unknown:%s" % p.get("name")
+                    for s2 in kids(cal.body):
+                        if s2 is None or s2["k"] in ("ReturnStmt", "NullStmt"):
+                            continue
+                        if s2["k"] == "DeclStmt":
+                            for v2 in kids(s2):
+                                do_decl(v2)
+                        else:
+                            do_expr(s2, depth + 1)
+                    return
+            if any(own_call(tree, z) is not None for z in walk(e)) or mentions_member(e, *(B.OWNERS + ("stats_",))):
+                # asserts on stats_ are compiled out; anything else that reaches the owners is not understood
+                unknown.append(e)
+        for i, what, root in path_roots(lf):
+            if what == "loop":
+                if mentions_member(root, *(B.OWNERS + ("stats_",))) or any(own_call(tree, z) is not None for z in walk(root)):
+                    und(fn, root, "loop in clear()")
+            elif what == "decl":
+                do_decl(root)
+            elif what == "expr":
+                do_expr(root)
+        reset = flags["reset"]
+        frees = [x for x in seq if x[0] == "free_node"]
+        recs = [x for x in seq if x[0] == "clear_recursive"]
         if not v["root"]:
-            if any(x[0] in ("clear_recursive", "free_node") for x in seq):
+            if seq:
                 ck.violation("CLEAR-RESET", fn.qname, "empty", "clear() of an empty tree touches nodes: %s" % seq, fn.loc)
             else:
                 ck.ok("CLEAR-RESET", tree.where(fn, "empty"), "nothing to release")
             continue
-        names = [x for x in seq]
-        need = [("clear_recursive", "root_"), ("free_node", "root_"), ("null", "root_"), ("null", "head_leaf_"), ("null", "tail_leaf_"),
-                ("reset", "stats_")]
-        missing = [x for x in need if x not in names]
-        order_ok = not missing and names.index(need[0]) < names.index(need[1]) < names.index(need[2])
-        if missing or not order_ok:
+        owners = {o: st.tf.get(o) for o in B.OWNERS}
+        msg = None
+        vague = [x for x in seq if x[1] is None or str(x[1]).startswith(("unknown", "var:"))]
+        if vague:
+            und(fn, None, "the node passed to %s() in clear() is not understood" % vague[0][0])
+        if [x for x in seq if x[1] != "R"]:
+            x = [x for x in seq if x[1] != "R"][0]
+            msg = "%s() is applied to %s instead of the root" % (x[0], "a null pointer (root_ was already reset)" if x[1] == "NULL" else x[1])
+        elif len(frees) > 1 or len(recs) > 1:
+            msg = "the root is %s twice" % ("freed" if len(frees) > 1 else "cleared")
+        elif frees and recs and seq.index(frees[0]) < seq.index(recs[0]):
+            msg = "the root is freed before its children are released"
+        elif [o for o in B.OWNERS if owners[o] in ("R", "H", "T")]:
+            if unknown:
+                und(fn, unknown[0], "owners after clear() are %s, and %s is not understood" % (owners, dtable.describe(unknown[0])))
+            msg = "%s still points into the released tree" % ", ".join(o for o in B.OWNERS if owners[o] in ("R", "H", "T"))
+        elif not recs or not frees:
+            if unknown:
+                und(fn, unknown[0], "%s not found in clear(), and %s is not understood"
+                    % ("clear_recursive(root_)" if not recs else "free_node(root_)", dtable.describe(unknown[0])))
+            msg = "missing %s" % ("clear_recursive(root_)" if not recs else "free_node(root_)")
+        elif any(owners[o] != "NULL" for o in B.OWNERS):
+            und(fn, None, "owners after clear(): %s" % owners)
+        elif not (reset or set(STATS_FIELDS) <= zeroed):
+            if unknown:
+                und(fn, unknown[0], "stats_ reset not found in clear(), and %s is not understood" % dtable.describe(unknown[0]))
+            msg = "stats_ is not reset (zeroed fields: %s)" % sorted(zeroed)
+        if msg:
             ck.violation("CLEAR-RESET", fn.qname, "nonempty", "clear() must release the children, then the root, then null root_/head_leaf_/"
-                         "tail_leaf_ and reset stats_; %s" % ("missing %s" % missing if missing else "order is %s" % names), fn.loc)
+                         "tail_leaf_ and reset stats_; %s" % msg, fn.loc)
         else:
             ck.ok("CLEAR-RESET", tree.where(fn, "nonempty"), "clear_recursive(root_), free_node(root_), owners nulled, stats_ reset")
-    # destructor
+
+
+def check_dtor(ck, tree):
     dt = [f for f in tree.fns if f.kind == "dtor" and f.record == BT]
     if not dt:
         raise ir.AnalysisBroken("~BTree not instantiated")
-    if not this_calls(dt[0], "clear"):
-        ck.violation("CLEAR-RESET", dt[0].qname, "dtor", "the destructor does not release the nodes (no clear())", dt[0].loc)
-    else:
+    if calls_reaching(tree, dt[0], "clear"):
         ck.ok("CLEAR-RESET", tree.where(dt[0]), "calls clear()")
-    # clear_recursive and copy_recursive visit all slotuse + 1 children
-    for name in ("clear_recursive", "copy_recursive"):
-        fn = tree.one(name)
-        loops = [l for l in match.loops_in(fn.body) if l["k"] == "ForStmt" and any(
-            x["k"] == "MemberExpr" and x.get("member") == "childid" for x in walk(l))]
-        if len(loops) != 1:
-            raise ir.AnalysisBroken("%s: child loop not found" % fn.full)
-        init, cond, inc, body = match.loop_parts(loops[0])
-        var = [x for x in walk(init) if x["k"] == "VarDecl"]
-        start = const_int(kids(var[0])[0]) if var and kids(var[0]) else None
-        b = match.binop(cond, ("<", "<="))
-        ok = False
-        if b and var and ref_of(b[1]) == var[0]["did"] and start == 0:
-            rhs = strip_casts(b[2])
-            f = match.field_of(rhs)
-            if b[0] == "<=" and f and f[1] == "slotuse":
-                ok = True
-            pl = match.binop(rhs, ("+",))
-            if b[0] == "<" and pl and match.field_of(pl[1]) and match.field_of(pl[1])[1] == "slotuse" and const_int(pl[2]) == 1:
-                ok = True
-        idx_ok = all(ref_of(match.index_parts(x)[1]) == var[0]["did"] for x in walk(body)
-                     if x["k"] == "ArraySubscriptExpr" and match.field_of(match.index_parts(x)[0]) and
-                     match.field_of(match.index_parts(x)[0])[1] == "childid") if var else False
-        if not ok or not idx_ok:
-            ck.violation("CHILD-RANGE", fn.qname, name, "an inner node with slotuse separators has slotuse + 1 children; the loop covers %s"
-                         % dtable.describe(cond), fn.nloc(loops[0]))
+    else:
+        other = [z for z in dt[0].nodes() if own_call(tree, z) is not None or is_call(z, "free_node", "clear_recursive")]
+        if other:
+            und(dt[0], other[0], "the destructor does not call clear(); what %s does is not followed" % dtable.describe(other[0]))
+        ck.violation("CLEAR-RESET", dt[0].qname, "dtor", "the destructor does not release the nodes (no clear())", dt[0].loc)
+
+
+def check_child_loops(ck, tree, name):
+    """clear_recursive and copy_recursive visit all slotuse + 1 children"""
+    fn = tree.one(name)
+    loops = [l for l in match.loops_in(fn.body) if mentions_member(l, "childid")]
+    if len(loops) != 1:
+        raise ir.AnalysisBroken("%s: child loop not found" % fn.full)
+    guarded(ck, "CHILD-RANGE", lambda: check_child_loop(ck, tree, fn, loops[0]))
+    if name == "clear_recursive":
+        guarded(ck, "CLEAR-RESET", lambda: check_clear_children(ck, tree, fn, loops[0]))
+
+
+def step_of(z, did):
+    """amount by which z advances the local did (++v, v++, v += c, v = v + c), None if z is no such step"""
+    u = match.unop(z, ("++", "--"))
+    if u and ref_of(u[1]) == did:
+        return 1 if u[0] == "++" else -1
+    b = match.binop(z, ("+=", "-=", "="))
+    if b and ref_of(b[1]) == did:
+        if b[0] in ("+=", "-="):
+            c = const_int(b[2])
+            return None if c is None else (c if b[0] == "+=" else -c)
+        r = match.binop(strip_casts(b[2]), ("+", "-"))
+        if r and ref_of(r[1]) == did and const_int(r[2]) is not None:
+            return const_int(r[2]) if r[0] == "+" else -const_int(r[2])
+        if r and r[0] == "+" and ref_of(r[2]) == did and const_int(r[1]) is not None:
+            return const_int(r[1])
+    return None
+
+
+def writes_local(z, did):
+    if z["k"] in ("BinaryOperator", "CompoundAssignOperator", "CXXOperatorCallExpr"):
+        b = match.binop(z)
+        if b and b[0].endswith("=") and b[0] not in ("==", "!=", "<=", ">=") and ref_of(b[1]) == did:
+            return True
+    u = match.unop(z, ("++", "--")) if z["k"] in ("UnaryOperator", "CXXOperatorCallExpr") else None
+    if u and ref_of(u[1]) == did:
+        return True
+    return z["k"] == "UnaryOperator" and z.get("op") == "&" and ref_of(kids(z)[0]) == did
+
+
+def check_child_loop(ck, tree, fn, loop):
+    """the loop is run on a small model: for slotuse = 0..4 it must touch exactly the children 0..slotuse"""
+    loc = Locals(fn)
+    init, cond, inc, body = match.loop_parts(loop)
+    if cond is None or loop["k"] == "DoStmt":
+        und(fn, loop, "child loop without a leading condition")
+    subs = []
+    for x in walk(body):
+        ip = match.index_parts(x) if x["k"] in ("ArraySubscriptExpr", "CXXOperatorCallExpr") else None
+        if ip and match.field_of(ip[0]) and match.field_of(ip[0])[1] == "childid":
+            subs.append(ip[1])
+        # pointer form: *c with c running over the child array (the model places childid at address 0)
+        dp = match.deref_of(x) if x["k"] == "UnaryOperator" else None
+        if dp is not None and ref_of(dp) is not None and (strip_casts(dp).get("ty") or "").replace(" ", "").endswith("**") and \
+                init is not None and mentions_member(init, "childid"):
+            subs.append(dp)
+    if not subs:
+        und(fn, loop, "the loop does not index childid[] directly")
+    # the induction variable: the local that the condition and every subscript share
+    cands = None
+    for e in [cond] + subs:
+        ds = {z["ref"]["id"] for z in walk(loc.expand(e)) if z["k"] == "DeclRefExpr" and z["ref"].get("kind") == "local" and
+              not loc.stable(z["ref"]["id"])}
+        cands = ds if cands is None else cands & ds
+    if not cands or len(cands) != 1:
+        und(fn, loop, "the induction variable of the child loop is not identified")
+    var = list(cands)[0]
+    vname = [z["ref"]["name"] for z in walk(cond) if z["k"] == "DeclRefExpr" and z["ref"]["id"] == var]
+    vname = vname[0] if vname else [z["ref"]["name"] for e in subs for z in walk(loc.expand(e)) if z["k"] == "DeclRefExpr" and z["ref"]["id"] == var][0]
+    # start value
+    start = None
+
+    def start_value(e):
+        """the start value on each model (it may depend on the fill: a loop that runs downwards)"""
+        try:
+            return [B.eval_int(loc.expand(e), {"slotuse": S, "childid": 0}) for S in range(0, 5)]
+        except Und:
+            return None
+    if init is not None:
+        for z in walk(init):
+            if z["k"] == "VarDecl" and z.get("did") == var and kids(z):
+                start = start_value(kids(z)[0])
+            b = match.binop(z, ("=",)) if z["k"] == "BinaryOperator" else None
+            if b and ref_of(b[1]) == var:
+                start = start_value(b[2])
+    elif var in loc.inits:
+        start = start_value(loc.inits[var])
+        outside = [z for z in fn.nodes() if writes_local(z, var) and not any(q is z for q in walk(loop))]
+        if outside:
+            und(fn, outside[0], "the induction variable is written outside the loop")
+    if start is None or any(x is None for x in start):
+        und(fn, loop, "start value of the child loop is not understood")
+    # the step: one update per iteration, after every use of the index
+    if inc is not None:
+        steps = [z for z in walk(inc) if writes_local(z, var)]
+        inner_w = [z for z in walk(body) if writes_local(z, var)]
+        if len(steps) != 1 or inner_w:
+            und(fn, loop, "the induction variable is updated more than once per iteration")
+        step = step_of(steps[0], var)
+    else:
+        stmts = [s for s in (kids(body) if body is not None and body["k"] == "CompoundStmt" else [body]) if s is not None]
+        ws = [z for z in walk(body) if writes_local(z, var)]
+        if len(ws) != 1 or not stmts or not any(q is ws[0] for q in walk(stmts[-1])) or stmts[-1]["k"] in CONTROL:
+            und(fn, loop, "the induction variable must be advanced once, by the last statement of the loop body")
+        if any(z["k"] in ("ContinueStmt",) for z in walk(body)):
+            und(fn, loop, "continue in a while-form child loop")
+        step = step_of(ws[0], var)
+    if step is None or step == 0:
+        und(fn, loop, "step of the child loop is not a constant")
+    condx = loc.expand(cond)
+    subx = [loc.expand(e) for e in subs]
+    for S in range(0, 5):
+        i, visited = start[S], []
+        for _ in range(40):
+            env = {"slotuse": S, "childid": 0, vname: i}
+            if not B.eval_int(condx, env):
+                break
+            visited.append(sorted({B.eval_int(e, env) for e in subx}))
+            i += step
         else:
-            ck.ok("CHILD-RANGE", tree.where(fn), "children 0 .. slotuse inclusive")
-        if name == "clear_recursive":
-            g = cfgm.CFG(fn)
-            rec = [z for z in walk(body) if "callee" in z and z["callee"]["name"] == "clear_recursive"]
-            fr = [z for z in walk(body) if "callee" in z and z["callee"]["name"] == "free_node"]
-            if len(rec) != 1 or len(fr) != 1 or not g.dominates(g.pos_deep(rec[0]), g.pos_deep(fr[0])) or \
-                    not match.same_expr(kids(rec[0])[1], kids(fr[0])[1]):
-                ck.violation("CLEAR-RESET", fn.qname, "recursive", "each child must be cleared recursively and then freed, once", fn.nloc(loops[0]))
+            und(fn, loop, "child loop does not terminate on the model slotuse=%d" % S)
+        if sorted(visited) != [[c] for c in range(S + 1)]:           # each child once; the order is free
+            ck.violation("CHILD-RANGE", fn.qname, fn.name, "an inner node with slotuse separators has slotuse + 1 children; for slotuse = %d "
+                         "the loop (%s) touches the children %s" % (S, dtable.describe(cond), [x for v in visited for x in v]), fn.nloc(loop))
+            return
+    ck.ok("CHILD-RANGE", tree.where(fn), "children 0 .. slotuse inclusive")
+
+
+def check_clear_children(ck, tree, fn, loop):
+    loc = Locals(fn)
+    g = cfgm.CFG(fn)
+    body = match.loop_parts(loop)[3]
+    rec = [z for z in walk(body) if is_call(z, "clear_recursive")]
+    fr = [z for z in walk(body) if is_call(z, "free_node")]
+    helpers = [z for z in walk(body) if own_call(tree, z) is not None and not is_call(z, "clear_recursive", "free_node")]
+    msg = None
+    if not rec or not fr:
+        if helpers:
+            und(fn, helpers[0], "per-child release not found; %s is not followed" % dtable.describe(helpers[0]))
+        msg = "a child is %s" % ("never cleared recursively" if not rec else "never freed")
+    elif len(rec) > 1 or len(fr) > 1:
+        und(fn, loop, "several clear_recursive()/free_node() calls per child")
+    else:
+        pr, pf = g.pos_deep(rec[0]), g.pos_deep(fr[0])
+        a, b = loc.expand(kids(rec[0])[1]), loc.expand(kids(fr[0])[1])
+        if pr is None or pf is None:
+            und(fn, loop, "per-child calls not found in the CFG")
+        if g.dominates(pf, pr):
+            msg = "the child is freed before its own children are released"
+        elif not g.dominates(pr, pf):
+            und(fn, loop, "clear_recursive(c) does not dominate free_node(c)")
+        elif not match.same_expr(a, b):
+            ia, ib = match.index_parts(a), match.index_parts(b)
+            if ia and ib and match.same_expr(ia[0], ib[0]):
+                msg = "clear_recursive(%s) but free_node(%s)" % (dtable.describe(a), dtable.describe(b))
             else:
-                ck.ok("CLEAR-RESET", tree.where(fn), "per child: clear_recursive(c) then free_node(c)")
+                und(fn, loop, "clear_recursive(%s) / free_node(%s): not recognisably the same child" % (dtable.describe(a), dtable.describe(b)))
+    if msg:
+        ck.violation("CLEAR-RESET", fn.qname, "recursive", "each child must be cleared recursively and then freed, once: %s" % msg, fn.nloc(loop))
+    else:
+        ck.ok("CLEAR-RESET", tree.where(fn), "per child: clear_recursive(c) then free_node(c)")
 
 
 def field_write_nodes(fn, field):
@@ -438,106 +1328,330 @@ def field_write_nodes(fn, field):
 def check_assign(ck, tree):
     fn = tree.one("operator=")
     g = cfgm.CFG(fn)
-    clears = this_calls(fn, "clear")
+    loc = Locals(fn)
+    writes_alloc = lambda q: q["k"] in ("BinaryOperator", "CXXOperatorCallExpr") and match.binop(q, ("=",)) is not None and \
+        match.this_field(match.binop(q, ("=",))[1]) == "allocator_"                     # noqa: E731
+    clears = calls_reaching(tree, fn, "clear")
     aw = field_write_nodes(fn, "allocator_")
-    copies = this_calls(fn, "copy_recursive")
+    # a private helper of operator= that takes over the allocator counts as the write
+    for z in fn.nodes():
+        if own_call(tree, z) is not None and not is_call(z, "clear", "copy_recursive"):
+            if reaches(tree, own_call(tree, z), writes_alloc):
+                aw.append(z)
+    copies = calls_reaching(tree, fn, "copy_recursive")
     if not aw or not copies:
         raise ir.AnalysisBroken("%s: allocator_ assignment / copy_recursive not found" % fn.full)
-    if len(clears) < 1:
+    if not clears:
+        inl = [z for z in fn.nodes() if is_call(z, "clear_recursive", "free_node")]
+        if inl:
+            und(fn, inl[0], "operator= releases nodes without calling clear()")
         ck.violation("ASSIGN-ORDER", fn.qname, "no-clear", "operator= does not release the old nodes before copying", fn.loc)
         return
-    pc = [g.pos_deep(c) for c in clears]
+    pos = lambda z: g.pos_deep(z)                                                         # noqa: E731
+    pc = [pos(c) for c in clears]
+    pa = [pos(w) for w in aw]
+    if any(p is None for p in pc + pa + [pos(c) for c in copies]):
+        und(fn, None, "operator=: a call is not found in the CFG")
+    # counterexamples are paths of the CFG
     for w in aw:
-        pw = g.pos_deep(w)
-        if not any(g.dominates(p, pw) for p in pc):
+        if g.path_from_entry_avoiding(pos(w), pc) is not None:
             ck.violation("ASSIGN-ORDER", fn.qname, "allocator-before-clear",
                          "allocator_ is replaced before clear(): the old nodes are then destroyed and deallocated through the *new* allocator, "
                          "not the one that produced them", fn.nloc(w))
             return
     for c in copies:
-        p = g.pos_deep(c)
-        if not any(g.dominates(q, p) for q in pc):
+        p = pos(c)
+        if g.path_from_entry_avoiding(p, pc) is not None:
             ck.violation("ASSIGN-ORDER", fn.qname, "copy-before-clear", "copy_recursive() runs while the old nodes are still owned (leak, and the "
                          "new leaves are appended to the old chain)", fn.nloc(c))
             return
-        if not all(g.dominates(g.pos_deep(w), p) for w in aw):
+        if g.path_from_entry_avoiding(p, pa) is not None or any(g.reachable(p, q) for q in pa):
             ck.violation("ASSIGN-ORDER", fn.qname, "copy-before-allocator", "the copy is allocated before allocator_ is taken over, and will be "
                          "released through a different allocator", fn.nloc(c))
             return
-    # the result of copy_recursive becomes the root; stats_ taken over after counting
-    rootw = [w for w in field_write_nodes(fn, "root_") if any("callee" in z and z["callee"]["name"] == "copy_recursive" for z in walk(w))]
-    if not rootw:
-        ck.violation("ASSIGN-ORDER", fn.qname, "root", "the copied tree is not stored in root_", fn.loc)
-        return
+    # the result of copy_recursive becomes the root
+    direct = [c for c in copies if is_call(c, "copy_recursive")]
+    for c in direct:
+        par = fn.parent(c)
+        while par is not None and par["k"] in CASTS + ("ParenExpr", "ExprWithCleanups", "MaterializeTemporaryExpr", "CXXBindTemporaryExpr"):
+            par = fn.parent(par)
+        stored = False
+        if par is not None:
+            b = match.binop(par, ("=",))
+            if b and match.this_field(b[1]) == "root_":
+                stored = True
+            elif par["k"] == "VarDecl" or (b and ref_of(b[1]) is not None):
+                did = par.get("did") if par["k"] == "VarDecl" else ref_of(b[1])
+                for w in field_write_nodes(fn, "root_"):
+                    if ref_of(match.binop(w, ("=",))[2]) == did and g.pos_deep(w) is not None and g.reachable(pos(c), g.pos_deep(w)):
+                        stored = True
+            elif par["k"] in ("CompoundStmt", "IfStmt", "ForStmt", "WhileStmt") and not (par["k"] == "IfStmt" and kids(par)[0] is c):
+                ck.violation("ASSIGN-ORDER", fn.qname, "root", "the copied tree is not stored in root_ (the result of copy_recursive() is dropped)",
+                             fn.nloc(c))
+                return
+        if not stored:
+            und(fn, c, "where the result of copy_recursive() goes is not understood")
     ck.ok("ASSIGN-ORDER", tree.where(fn), "clear() dominates allocator_ = ..., which dominates root_ = copy_recursive(...)")
-    # every other writer of allocator_ is a constructor or swap
+    # every other writer of allocator_ is a constructor or swap (or a helper used by them only)
+    cm = callers_map(tree)
     for f in tree.fns:
         if f.record != BT or f.kind == "ctor" or f.name in ("operator=", "swap") or f.body is None:
             continue
-        if field_write_nodes(f, "allocator_"):
+        if field_write_nodes(f, "allocator_") and not (f.kind != "ctor" and owned_by_kinds(tree, cm, f)):
             ck.violation("ASSIGN-ORDER", f.qname, "allocator-writer", "%s() replaces allocator_ while nodes may be owned" % f.name, f.loc)
 
 
+def owned_by_kinds(tree, cm, fn, seen=None):
+    """every call chain into fn comes through a constructor, operator= or swap of the tree"""
+    if fn.record == BT and (fn.kind == "ctor" or fn.name in ("operator=", "swap")):
+        return True
+    seen = set() if seen is None else seen
+    if fn.did in seen:
+        return True
+    seen.add(fn.did)
+    cs = cm.get(fn.did, set()) - {fn.did}
+    return bool(cs) and all(owned_by_kinds(tree, cm, tree.by_did[c], seen) for c in cs)
+
+
 def check_swap(ck, tu, tree):
+    """swap() is executed on symbolic field values: afterwards every data member of *this holds the other tree's value and
+    vice versa"""
     fn = tree.one("swap")
     rec = [r for r in tu.records if r["qname"] == BT and r.get("targs") == tree.targs]
     if not rec:
         rec = [r for r in tu.records if r["qname"] == BT]
     fields = [f["name"] for f in rec[0]["fields"]]
     other = fn.params[0]["did"]
-    swapped = set()
-    for z in fn.nodes():
-        if "callee" in z and z["callee"]["name"] == "swap" and len(kids(z)) == 2:
-            a, b = kids(z)
-            fa, fb = match.this_field(a), match.field_of(b)
-            if fa is None and match.this_field(b):
-                fa, fb = match.this_field(b), match.field_of(a)
-            if fa and fb and fb[1] == fa and ref_of(fb[0]) == other:
-                swapped.add(fa)
-    missing = [f for f in fields if f not in swapped]
-    if missing:
-        ck.violation("SWAP-COMPLETE", fn.qname, "swap:" + ",".join(missing), "swap() leaves %s behind: the two trees then own each other's nodes "
-                     "with the wrong bookkeeping/allocator" % missing, fn.loc)
-    else:
-        ck.ok("SWAP-COMPLETE", tree.where(fn), "all %d data members exchanged" % len(fields))
+    state = {}
+
+    def lv(e):
+        e = strip_casts(e)
+        if e is None:
+            return None
+        if is_call(e, "move", "forward", "as_const") and len(kids(e)) == 1:
+            return lv(kids(e)[0])
+        tf = match.this_field(e)
+        if tf:
+            return ("this", tf)
+        f = match.field_of(e)
+        if f and ref_of(f[0]) == other:
+            return ("other", f[1])
+        if e["k"] == "DeclRefExpr" and e["ref"].get("kind") == "local":
+            return ("local", e["ref"]["id"])
+        return None
+
+    def get(key):
+        return state.get(key, key if key[0] != "local" else None)
+
+    def rv(e):
+        e = match.strip_conv(e)
+        k = lv(e)
+        return get(k) if k is not None else None
+    leaves = dtable.explore(fn.body, lambda n, run: None, fn)
+    unknown = []
+    for lf in leaves:
+        state.clear()
+        for i, what, root in path_roots(lf):
+            if what == "loop":
+                und(fn, root, "loop in swap()")
+            if what == "decl":
+                init = kids(root)[0] if kids(root) else None
+                state[("local", root["did"])] = rv(init) if init is not None else None
+                if init is not None and rv(init) is None and (mentions_ref(init, fn.params[0]["name"]) or any(z["k"] == "This" for z in walk(init))):
+                    unknown.append(root)
+                continue
+            if what == "ret":
+                continue
+            e = strip_casts(root)
+            if is_call(e, "swap", "iter_swap") and len(kids(e)) == 2 and lv(kids(e)[0]) and lv(kids(e)[1]):
+                a, b = lv(kids(e)[0]), lv(kids(e)[1])
+                state[a], state[b] = get(b), get(a)
+                continue
+            b = match.binop(e, ("=",))
+            if b and lv(b[1]):
+                v = rv(b[2])
+                if v is None:
+                    ex = match.strip_conv(b[2])
+                    if is_call(ex, "exchange") and len(kids(ex)) == 2 and lv(kids(ex)[0]):
+                        v = get(lv(kids(ex)[0]))
+                        state[lv(kids(ex)[0])] = rv(kids(ex)[1])
+                state[lv(b[1])] = v
+                continue
+            if any(z["k"] == "This" for z in walk(e)) or ref_of(e) == other or any(ref_of(z) == other for z in walk(e)):
+                unknown.append(e)
+        missing, vague = [], []
+        for f in fields:
+            a, b = get(("this", f)), get(("other", f))
+            if a == ("other", f) and b == ("this", f):
+                continue
+            if a in (("this", f),) or b in (("other", f),):
+                missing.append(f)           # evaluated: the member keeps its own value on at least one side
+            else:
+                vague.append(f)
+        if (missing or vague) and unknown:
+            und(fn, unknown[0], "swap(): %s is not understood (members not seen exchanged: %s)" % (dtable.describe(unknown[0]), missing + vague))
+        if vague and not missing:
+            und(fn, None, "swap(): the final values of %s are not understood" % vague)
+        if missing:
+            ck.violation("SWAP-COMPLETE", fn.qname, "swap:" + ",".join(missing), "swap() leaves %s behind: the two trees then own each other's nodes "
+                         "with the wrong bookkeeping/allocator" % missing, fn.loc)
+            return
+    ck.ok("SWAP-COMPLETE", tree.where(fn), "all %d data members exchanged" % len(fields))
 
 
 # ------------------------------------------------------------------ size accounting
 def check_size(ck, tree):
-    for name, op in (("insert_start", "++"), ("erase_one", "--"), ("erase", "--")):
+    for name, want in (("insert_start", +1), ("erase_one", -1), ("erase", -1)):
         for fn in tree.find(name):
-            ups = [z for z in fn.nodes() if z["k"] == "UnaryOperator" and z.get("op") in ("++", "--") and stats_field(kids(z)[0]) == "size"]
-            if name == "erase" and not any("callee" in z and z["callee"]["name"] == "erase_iter_descend" for z in fn.nodes()):
+            if name == "erase" and not any(is_call(z, "erase_iter_descend") for z in fn.nodes()):
                 continue       # erase(key) loops over erase_one
-            if len(ups) != 1 or ups[0]["op"] != op:
-                ck.violation("SIZE-PAIR", fn.qname, name, "%s() must %s stats_.size exactly once" % (name, op), fn.loc)
-                continue
-            par = fn.parent(ups[0])
-            while par is not None and par["k"] != "IfStmt":
-                par = fn.parent(par)
-            good = False
-            if par is not None:
-                c = strip_casts(kids(par)[0])
-                if name == "insert_start":
-                    f = match.field_of(c)
-                    good = f is not None and f[1] == "second"
-                else:
-                    u = match.unop(c, ("!",))
-                    inner = strip_casts(u[1]) if u else None
-                    good = inner is not None and "callee" in inner and inner["callee"]["name"] == "has" and any(
-                        z["k"] == "DeclRefExpr" and z["ref"]["name"] == "btree_not_found" for z in walk(inner))
-            if not good:
-                ck.violation("SIZE-PAIR", fn.qname, name, "stats_.size changes although the operation may not have %s an element"
-                             % ("inserted" if op == "++" else "removed"), fn.nloc(ups[0]))
-            else:
-                ck.ok("SIZE-PAIR", tree.where(fn), "%ssize guarded by the operation's own result" % op)
+            guarded(ck, "SIZE-PAIR", lambda: check_size_fn(ck, tree, fn, name, want))
+
+
+def check_size_fn(ck, tree, fn, name, want):
+    loc = Locals(fn)
+    registry = {}
+
+    def atomize(n, run, name=name, loc=loc, registry=registry):
+        n1 = strip_casts(n)
+        if name == "insert_start":
+            # <pair returned by insert_descend()>.second
+            f = match.field_of(n1)
+            d = ref_of(f[0]) if f and f[1] == "second" else None
+            if d is not None and d in loc.inits and d not in loc.written and \
+                    any(is_call(z, "insert_descend") for z in walk(loc.inits[d])):
+                return "done", False
+        elif is_call(n1, "has") and mentions_ref(n1, "btree_not_found"):
+            return "done", True
+        return opaque_atom(n, registry)
+    leaves = dtable.explore(fn.body, with_bool_cmp(atomize), fn)
+    bad = None
+    for lf in leaves:
+        nodes = list(path_nodes(lf))
+        for l in path_loops(lf):
+            if any((counter_write(z) or ("", ""))[0] == "size" for z in walk(l)):
+                und(fn, l, "stats_.size changes inside a loop")
+        delta, unknown = counter_effect(fn, nodes, fields=("size",))
+        odd = [z for z in nodes if (counter_write(z) or ("", ""))[0] == "size" and
+               (counter_write(z)[1] not in ("+", "-") or counter_write(z)[2] is None)]
+        if odd:
+            und(fn, odd[0], "stats_.size is updated in an unrecognised form")
+        d = delta.get("size", 0)
+        done = lf["val"].get("done")
+        expect = want if done else 0
+        if d == expect:
+            continue
+        hidden = [z for z in nodes if own_call(tree, z) is not None and
+                  reaches(tree, own_call(tree, z), lambda q: (counter_write(q) or ("", ""))[0] == "size")]
+        if hidden:
+            und(fn, hidden[0], "%s() changes stats_.size itself and is not followed" % hidden[0]["callee"]["name"])
+        if unknown is not None:
+            und(fn, unknown, "stats_ is accessed in an unrecognised form on a path whose size change (%+d) is not the expected %+d" % (d, expect))
+        # the path contradicts the clause; it is evidence only if every decision on it was understood
+        murky = [k for k in other_atoms(lf["val"]) if any(
+            z["k"] == "DeclRefExpr" and z["ref"].get("kind") == "local" for z in walk(registry.get(k))) or
+            any(is_call(z) for z in walk(registry.get(k)))]
+        if murky and done is None:
+            und(fn, registry[murky[0]], "stats_.size changes on a path decided by %s, which is not understood" % murky[0][1])
+        if done:
+            bad = ("%s() must %s stats_.size exactly once when the element was %s; it changes by %+d on a successful path"
+                   % (name, "++" if want > 0 else "--", "inserted" if want > 0 else "removed", d))
+        else:
+            bad = ("stats_.size changes (%+d) although the operation may not have %s an element" % (d, "inserted" if want > 0 else "removed"))
+        break
+    if bad:
+        ck.violation("SIZE-PAIR", fn.qname, name, bad, fn.loc)
+    else:
+        ck.ok("SIZE-PAIR", tree.where(fn), "%ssize guarded by the operation's own result" % ("++" if want > 0 else "--"))
 
 
 # ------------------------------------------------------------------ leaf chain
+class ChainShape(B.Shape):
+    """the alias model of btcommon, which additionally remembers (in the state's trace) when a path was split on a
+    condition the model does not interpret: on such a path 'no test was seen' is not evidence"""
+
+    def cond(self, c, st):
+        c0 = strip_casts(c)
+        if c0["k"] == "ParenExpr":
+            return self.cond(kids(c0)[0], st)
+        if c0["k"] == "UnaryOperator" and c0.get("op") == "!":
+            return [(s, not t) for s, t in self.cond(kids(c0)[0], st)]
+        if c0["k"] == "BinaryOperator" and c0.get("op") in ("&&", "||"):
+            out = []
+            for s, t in self.cond(kids(c0)[0], st):
+                if (c0["op"] == "&&") == t:
+                    out += self.cond(kids(c0)[1], s)
+                else:
+                    out.append((s, t))
+            return out
+        if is_call(c0, "is_leafnode"):
+            s1, s2 = st.clone(), st.clone()
+            s1.trace.append(("leafnode", True))
+            s2.trace.append(("leafnode", False))
+            return [(s1, True), (s2, False)]
+        res = B.Shape.cond(self, c, st)
+        if len(res) == 2 and const_int(c0) is None:
+            pt = match.ptr_truth(c) or match.ptr_truth(c0)
+            b = match.binop(c0, ("==", "!="))
+            understood = False
+            if pt is not None and self.ev(pt, st) is not None:
+                understood = True
+            if b:
+                l, r = self.ev(b[1], st), self.ev(b[2], st)
+                if l is not None and r is not None and "NULL" in (l, r):
+                    understood = True
+            if not understood:
+                for s, t in res:
+                    s.trace.append(("opaque", "line %s: %s" % (c0.get("l"), dtable.describe(c0))))
+        return res
+
+
+def opaque_of(s):
+    return [x[1] for x in s.trace if x[0] == "opaque"]
+
+
+def vague_sym(x):
+    return x is not None and (x == "unknown" or str(x).startswith(("unknown:", "var:")))
+
+
+def chain_preconditions(fn, stmts, tree, depth=0):
+    """constructs through which a chain pointer can change without the alias model seeing it"""
+    for s in stmts:
+        for z in walk(s):
+            if z["k"] == "VarDecl" and (z.get("isref") or (z.get("ty") or "").rstrip().endswith("&")) and kids(z) and \
+                    strip_casts(kids(z)[0]) is not None and strip_casts(kids(z)[0])["k"] == "MemberExpr" and \
+                    strip_casts(kids(z)[0]).get("member") in B.LINKS + B.OWNERS:
+                und(fn, z, "reference alias of a chain pointer")
+            if z["k"] == "UnaryOperator" and z.get("op") == "&" and strip_casts(kids(z)[0])["k"] == "MemberExpr" and \
+                    strip_casts(kids(z)[0]).get("member") in B.LINKS + B.OWNERS:
+                und(fn, z, "address of a chain pointer taken")
+            if is_call(z) and not is_call(z, "allocate_leaf"):
+                args = kids(z)[1:] if z.get("member_call") else kids(z)
+                if z["k"] == "CXXOperatorCallExpr":
+                    continue
+                for a in args:
+                    if a is not None and a["k"] == "MemberExpr" and a.get("member") in B.LINKS + B.OWNERS and a.get("lv"):
+                        und(fn, z, "%s() receives a chain pointer by reference" % z["callee"]["name"])
+            if z["k"] in ("ConditionalOperator",) and any(q["k"] == "MemberExpr" and q.get("member") in B.LINKS + B.OWNERS for q in walk(z)):
+                und(fn, z, "conditional expression over chain pointers")
+            if is_call(z) and not is_call(z, "allocate_leaf", fn.name):
+                # the model executes helpers that are member calls on *this and form a statement of their own; any other
+                # function of the program that touches the chain is invisible to it
+                cal = fn.tu.by_did.get(z["callee"].get("did"))
+                if cal is not None and cal.body is not None and mentions_member(cal.body, *(B.LINKS + B.OWNERS)):
+                    par = fn.parent(z)
+                    while par is not None and par["k"] in CASTS + ("ExprWithCleanups", "ParenExpr"):
+                        par = fn.parent(par)
+                    stmt_like = par is not None and par["k"] in ("CompoundStmt", "IfStmt") and not (par["k"] == "IfStmt" and kids(par)[0] is z)
+                    if not (this_call(z) and tree is not None and z["callee"].get("did") in tree.by_did and stmt_like):
+                        und(fn, z, "%s() touches the leaf chain and is not executed by the alias model" % z["callee"]["name"])
+
+
 def run_shape(fn, stmts, setup, tree=None):
-    sh = B.Shape(fn, tree=tree)
+    sh = ChainShape(fn, tree=tree)
     st = B.ShapeState()
     setup(st)
+    chain_preconditions(fn, stmts, tree)
     # loops inside the fragment must not touch the chain
     for s in stmts:
         for l in match.loops_in(s):
@@ -547,7 +1661,23 @@ def run_shape(fn, stmts, setup, tree=None):
     return sh.run(stmts, st)
 
 
+def settle(fn, s, bad, values=()):
+    """a contradiction found on the alias model is evidence unless the path went through uninterpreted decisions or the
+    values involved are unknown to the model"""
+    if bad is None:
+        return None
+    if any(vague_sym(x) for x in values):
+        und(fn, None, "leaf chain of %s: %s — but the model does not know the value (%s)" % (fn.name, bad, [x for x in values if vague_sym(x)][0]))
+    return bad
+
+
 def check_leafchain(ck, tree):
+    guarded(ck, "LEAFCHAIN-SPLICE", lambda: check_chain_split(ck, tree))
+    guarded(ck, "LEAFCHAIN-SPLICE", lambda: check_chain_merge(ck, tree))
+    guarded(ck, "LEAFCHAIN-SPLICE", lambda: check_chain_appends(ck, tree))
+
+
+def check_chain_split(ck, tree):
     # split_leaf_node(leaf, ...): new leaf N directly after L
     fn = tree.one("split_leaf_node")
     L = fn.params[0]["did"]
@@ -559,31 +1689,52 @@ def check_leafchain(ck, tree):
     outs = run_shape(fn, kids(fn.body), setup, tree)
     bad = None
     for s in outs:
+        if len(s.news) == 0:
+            und(fn, None, "split_leaf_node: the new leaf is not obtained through allocate_leaf() on a path")
         if len(s.news) != 1:
-            bad = "expected one new leaf"
+            bad = "%d new leaves on one path" % len(s.news)
             break
         N = s.news[0]
         xnull = s.null.get("X")
-        if s.problems:
-            bad = s.problems[0]
-        elif s.heap.get((N, "next_leaf")) != "X":
-            bad = "new->next_leaf is %s, must be the old successor" % s.heap.get((N, "next_leaf"))
-        elif s.heap.get((N, "prev_leaf")) != "L":
-            bad = "new->prev_leaf is %s, must be the split leaf" % s.heap.get((N, "prev_leaf"))
-        elif s.heap.get(("L", "next_leaf")) != N:
-            bad = "leaf->next_leaf is %s, must be the new leaf" % s.heap.get(("L", "next_leaf"))
-        elif xnull is True and s.tf.get("tail_leaf_") != N:
-            bad = "the split leaf was the tail; tail_leaf_ must become the new leaf"
-        elif xnull is False and s.heap.get(("X", "prev_leaf")) != N:
-            bad = "the old successor's prev_leaf must point to the new leaf (reverse iteration skips it otherwise)"
-        elif xnull is False and s.tf.get("tail_leaf_") not in (None, "old:tail_leaf_"):
-            bad = "tail_leaf_ changed although the split leaf was not the tail"
+        nn, npv, ln, xp, tl = (s.heap.get((N, "next_leaf")), s.heap.get((N, "prev_leaf")), s.heap.get(("L", "next_leaf")),
+                               s.heap.get(("X", "prev_leaf")), s.tf.get("tail_leaf_"))
+        hard = [p for p in s.problems if "possibly-null" not in p]
+        soft = [p for p in s.problems if "possibly-null" in p]
+        if hard:
+            bad = hard[0]
+        elif soft:
+            if opaque_of(s):
+                und(fn, None, "split_leaf_node: %s; the path is decided by %s, which is not interpreted" % (soft[0], opaque_of(s)[0]))
+            bad = soft[0]
+        elif nn != "X":
+            bad = settle(fn, s, "new->next_leaf is %s, must be the old successor" % nn, [nn])
+        elif npv != "L":
+            bad = settle(fn, s, "new->prev_leaf is %s, must be the split leaf" % npv, [npv])
+        elif ln != N:
+            bad = settle(fn, s, "leaf->next_leaf is %s, must be the new leaf" % ln, [ln])
+        elif xnull is True and tl != N:
+            if opaque_of(s):
+                und(fn, None, "split_leaf_node: tail_leaf_ is %s when the split leaf was the tail; the path is decided by %s" % (tl, opaque_of(s)[0]))
+            bad = settle(fn, s, "the split leaf was the tail; tail_leaf_ must become the new leaf", [tl])
+        elif xnull is False and xp != N:
+            if opaque_of(s):
+                und(fn, None, "split_leaf_node: successor.prev_leaf is %s; the path is decided by %s" % (xp, opaque_of(s)[0]))
+            bad = settle(fn, s, "the old successor's prev_leaf must point to the new leaf (reverse iteration skips it otherwise)", [xp])
+        elif xnull is False and tl not in (None, "old:tail_leaf_"):
+            if opaque_of(s):
+                und(fn, None, "split_leaf_node: tail_leaf_ written on a path decided by %s" % opaque_of(s)[0])
+            bad = settle(fn, s, "tail_leaf_ changed although the split leaf was not the tail", [tl])
         elif xnull is None:
+            if opaque_of(s):
+                und(fn, None, "split_leaf_node: the successor is not tested for null, but the path is decided by %s" % opaque_of(s)[0])
             bad = "the old successor is never tested for null"
         if bad:
             break
     report(ck, tree, fn, "split", bad, "%d paths: N.next=old next, N.prev=L, L.next=N, old next.prev=N | tail=N" % len(outs))
 
+
+
+def check_chain_merge(ck, tree):
     # merge_leaves(left, right, ...): right is unlinked
     fn = tree.one("merge_leaves")
     Lp, Rp = fn.params[0]["did"], fn.params[1]["did"]
@@ -598,70 +1749,113 @@ def check_leafchain(ck, tree):
     bad = None
     for s in outs:
         xnull = s.null.get("X")
-        if s.problems:
-            bad = s.problems[0]
-        elif s.heap.get(("L", "next_leaf")) != "X":
-            bad = "left->next_leaf is %s, must skip the emptied right leaf" % s.heap.get(("L", "next_leaf"))
-        elif xnull is True and s.tf.get("tail_leaf_") != "L":
-            bad = "the emptied leaf was the tail; tail_leaf_ must become the left leaf (it dangles after the free otherwise)"
-        elif xnull is False and s.heap.get(("X", "prev_leaf")) != "L":
-            bad = "the successor's prev_leaf still points to the emptied leaf, which is freed by the parent"
+        ln, xp, tl = s.heap.get(("L", "next_leaf")), s.heap.get(("X", "prev_leaf")), s.tf.get("tail_leaf_")
+        hard = [p for p in s.problems if "possibly-null" not in p]
+        soft = [p for p in s.problems if "possibly-null" in p]
+        if hard:
+            bad = hard[0]
+        elif soft:
+            if opaque_of(s):
+                und(fn, None, "merge_leaves: %s; the path is decided by %s, which is not interpreted" % (soft[0], opaque_of(s)[0]))
+            bad = soft[0]
+        elif ln != "X":
+            bad = settle(fn, s, "left->next_leaf is %s, must skip the emptied right leaf" % ln, [ln])
+        elif xnull is True and tl != "L":
+            if opaque_of(s):
+                und(fn, None, "merge_leaves: tail_leaf_ is %s when the emptied leaf was the tail; the path is decided by %s" % (tl, opaque_of(s)[0]))
+            bad = settle(fn, s, "the emptied leaf was the tail; tail_leaf_ must become the left leaf (it dangles after the free otherwise)", [tl])
+        elif xnull is False and xp != "L":
+            if opaque_of(s):
+                und(fn, None, "merge_leaves: successor.prev_leaf is %s; the path is decided by %s" % (xp, opaque_of(s)[0]))
+            bad = settle(fn, s, "the successor's prev_leaf still points to the emptied leaf, which is freed by the parent", [xp])
         elif xnull is None:
+            if opaque_of(s):
+                und(fn, None, "merge_leaves: the successor is not tested for null, but the path is decided by %s" % opaque_of(s)[0])
             bad = "the successor of the emptied leaf is never tested for null"
         if bad:
             break
     report(ck, tree, fn, "merge", bad, "%d paths: L.next=R.next, successor.prev=L | tail=L" % len(outs))
 
-    # appends: copy_recursive (leaf branch) and bulk_load (leaf loop body)
-    fn = tree.one("copy_recursive")
-    top = [s for s in kids(fn.body) if s["k"] == "IfStmt"]
-    if not top or not any("callee" in z and z["callee"]["name"] == "is_leafnode" for z in walk(kids(top[0])[0])):
-        raise ir.AnalysisBroken("%s: leaf branch not found" % fn.full)
-    check_append(ck, tree, fn, kids(kids(top[0])[1]), "copy")
+
+
+def check_chain_appends(ck, tree):
+    # appends: copy_recursive (leaf paths) and bulk_load (leaf loop body)
+    guarded(ck, "LEAFCHAIN-SPLICE", lambda: check_chain_copy(ck, tree))
     for fn in tree.find("bulk_load"):
-        loops = [l for l in match.loops_in(fn.body) if any("callee" in z and z["callee"]["name"] == "allocate_leaf" for z in walk(l))]
-        if len(loops) != 1:
-            raise ir.AnalysisBroken("%s: leaf loop not found" % fn.full)
-        body = match.loop_parts(loops[0])[3]
-        check_append(ck, tree, fn, kids(body), "bulk")
+        guarded(ck, "LEAFCHAIN-SPLICE", lambda: check_chain_bulk(ck, tree, fn))
 
 
-def check_append(ck, tree, fn, stmts, what):
+def check_chain_copy(ck, tree):
+    fn = tree.one("copy_recursive")
+    if not any(is_call(z, "is_leafnode") for z in walk(fn.body)):
+        raise ir.AnalysisBroken("%s: leaf branch not found" % fn.full)
+    check_append(ck, tree, fn, kids(fn.body), "copy", leaf_paths=True)
+
+
+def check_chain_bulk(ck, tree, fn):
+    loops = [l for l in match.loops_in(fn.body) if any(is_call(z, "allocate_leaf") for z in walk(l))]
+    if len(loops) != 1:
+        raise ir.AnalysisBroken("%s: leaf loop not found" % fn.full)
+    body = match.loop_parts(loops[0])[3]
+    check_append(ck, tree, fn, kids(body) if body["k"] == "CompoundStmt" else [body], "bulk")
+
+
+def check_append(ck, tree, fn, stmts, what, leaf_paths=False):
     def setup(st):
         st.tf["head_leaf_"] = "H"
         st.tf["tail_leaf_"] = "T"
-    # strip inner loops that fill the slots
     outs = run_shape(fn, stmts, setup, tree)
+    if leaf_paths:
+        # the whole function was run: the paths of the leaf case are those on which is_leafnode() held
+        outs = [s for s in outs if ("leafnode", True) in s.trace]
+        if not outs:
+            und(fn, None, "%s: no path for the leaf case" % fn.name)
     bad = None
+    n_eval = 0
     for s in outs:
         # consistent start states only: head null <=> tail null
         hn, tn = s.null.get("H"), s.null.get("T")
         if hn is not None and tn is not None and hn != tn:
             continue
         empty = hn if hn is not None else tn
+        if len(s.news) == 0:
+            und(fn, None, "%s: the appended leaf is not obtained through allocate_leaf() on a path" % fn.name)
         if len(s.news) != 1:
-            bad = "expected one new leaf per step"
+            bad = "%d new leaves per step" % len(s.news)
             break
+        n_eval += 1
         N = s.news[0]
+        op = opaque_of(s)
         if s.problems:
             # a dereference of the old tail is fine when the *head* was tested non-null (same fact)
             probs = [p for p in s.problems if not ("possibly-null T" in p and hn is False) and not ("possibly-null H" in p and tn is False)]
             if probs:
+                if "possibly-null" in probs[0] and op:
+                    und(fn, None, "%s: %s; the path is decided by %s, which is not interpreted" % (fn.name, probs[0], op[0]))
                 bad = probs[0]
                 break
-        if s.tf.get("tail_leaf_") != N:
-            bad = "tail_leaf_ is %s after appending, must be the new leaf" % s.tf.get("tail_leaf_")
-        elif s.heap.get((N, "next_leaf")) != "NULL":
-            bad = "the appended leaf's next_leaf must be null"
-        elif empty is True and (s.tf.get("head_leaf_") != N or s.heap.get((N, "prev_leaf")) != "NULL"):
-            bad = "first leaf: head_leaf_ must be the new leaf and its prev_leaf null"
-        elif empty is False and (s.heap.get(("T", "next_leaf")) != N or s.heap.get((N, "prev_leaf")) != "T" or s.tf.get("head_leaf_") != "H"):
-            bad = "appending after tail T: T.next=%s new.prev=%s head=%s (want new, T, unchanged)" % (
-                s.heap.get(("T", "next_leaf")), s.heap.get((N, "prev_leaf")), s.tf.get("head_leaf_"))
+        tl, hd, nn, npv, tn_ = (s.tf.get("tail_leaf_"), s.tf.get("head_leaf_"), s.heap.get((N, "next_leaf")), s.heap.get((N, "prev_leaf")),
+                                s.heap.get(("T", "next_leaf")))
+        if tl != N:
+            bad = settle(fn, s, "tail_leaf_ is %s after appending, must be the new leaf" % tl, [tl])
+        elif nn != "NULL":
+            bad = settle(fn, s, "the appended leaf's next_leaf must be null", [nn])
+        elif empty is True and (hd != N or npv != "NULL"):
+            if op:
+                und(fn, None, "%s: first leaf: head=%s prev=%s on a path decided by %s" % (fn.name, hd, npv, op[0]))
+            bad = settle(fn, s, "first leaf: head_leaf_ must be the new leaf and its prev_leaf null", [hd, npv])
+        elif empty is False and (tn_ != N or npv != "T" or hd != "H"):
+            if op:
+                und(fn, None, "%s: append after the tail: T.next=%s new.prev=%s head=%s on a path decided by %s" % (fn.name, tn_, npv, hd, op[0]))
+            bad = settle(fn, s, "appending after tail T: T.next=%s new.prev=%s head=%s (want new, T, unchanged)" % (tn_, npv, hd), [tn_, npv, hd])
         elif empty is None:
+            if op:
+                und(fn, None, "%s: the chain is extended on a path decided by %s, which is not interpreted" % (fn.name, op[0]))
             bad = "the chain is extended without testing whether it is empty"
         if bad:
             break
+    if not bad and not n_eval:
+        und(fn, None, "%s: no consistent path evaluated" % fn.name)
     report(ck, tree, fn, what, bad, "%d paths: empty chain -> head=tail=N; else T.next=N, N.prev=T, tail=N" % len(outs))
 
 
@@ -673,142 +1867,240 @@ def report(ck, tree, fn, what, bad, okmsg):
 
 
 # ------------------------------------------------------------------ separator maintenance on erase
+PN = 2          # model: the parent has two separators; parentslot ranges over 0..2, the leaf keeps 0..2 entries
+
+
 def check_sep_update(ck, tree):
     for name in ("erase_one_descend", "erase_iter_descend"):
-        fn = tree.one(name)
-        roles = B.Roles(fn)
-        ifs = B.find_underflow_ifs(fn)
-        for region in ifs:
-            rec = [z for z in walk(kids(region)[0]) if "callee" in z and z["callee"]["name"] == "is_underflow"][0]
-            kind = "leaf" if "LeafNode" in rec["callee"]["record"] else "inner"
-            holder = fn.parent(region)
-            stmts = kids(holder)
-            idx = [i for i, s in enumerate(stmts) if s is region][0]
-            # the statements between the removal / recursive call and the underflow handling
-            start = 0
-            for i, s in enumerate(stmts[:idx]):
-                if kind == "leaf" and any(z["k"] in ("UnaryOperator", "CompoundAssignOperator") and z.get("op") in ("--", "-=") and
-                                          match.field_of(kids(z)[0]) and match.field_of(kids(z)[0])[1] == "slotuse" for z in walk(s)) \
-                        and s["k"] != "IfStmt":
-                    start = i + 1
-                if kind == "inner" and any("callee" in z and z["callee"]["name"] == name for z in walk(s)):
-                    start = i + 1
-            frag = [s for s in stmts[start:idx]]
-            curr_leafvar = None
+        guarded(ck, "SEP-UPDATE", lambda: _one_check_sep_update(ck, tree, name))
 
-            def atomize(n, run):
-                n0 = n
-                n = strip_casts(n)
-                pt = match.ptr_truth(n0) or match.ptr_truth(n)
-                if pt is not None and roles.param_of(pt) == B.P_PARENT:
-                    return "P", False
-                b = match.binop(n, ("<", ">=", "==", "!=", ">", "<="))
-                if b:
-                    op, l, r = b
-                    fl, fr = match.field_of(l), match.field_of(r)
-                    if roles.param_of(l) == B.P_PSLOT and fr and fr[1] == "slotuse" and roles.param_of(fr[0]) == B.P_PARENT:
-                        return {"<": ("S", False), ">=": ("S", True)}.get(op)
-                    if fr and fr[1] == "slotuse" and roles.param_of(fr[0]) == B.P_CURR and ref_of(l) is not None and op in ("==", "!="):
-                        return "LAST", op == "!="
-                    if fl and fl[1] == "slotuse" and roles.param_of(fl[0]) == B.P_CURR and const_int(r) is not None:
-                        c = const_int(r)
-                        if (op, c) in ((">=", 1), (">", 0), ("!=", 0)):
-                            return "N", False
-                        if (op, c) in (("<", 1), ("==", 0), ("<=", 0)):
-                            return "N", True
-                if "callee" in n and n["callee"]["name"] == "has":
-                    flags = [z["ref"]["name"] for z in walk(n) if z["k"] == "DeclRefExpr" and z["ref"]["name"].startswith("btree_")]
-                    if flags:
-                        return ("has", flags[0]), False
-                if n["k"] == "BinaryOperator" and n.get("op") in ("==", "!=", "<", ">", "<=", ">="):
-                    return ("other", dtable.describe(n)), False
-                return None
-            seq = {"k": "CompoundStmt", "ch": frag, "id": -2}
-            leaves = dtable.explore(seq, atomize, fn)
-            atoms = dtable.atoms_of(leaves)
-            trigger = "LAST" if kind == "leaf" else ("has", "btree_update_lastkey")
-            if trigger not in atoms or "P" not in atoms or "S" not in atoms:
-                ck.violation("SEP-UPDATE", fn.qname, "%s:%s:shape" % (name, kind),
-                             "after removing from a %s the code must decide on (largest key changed, parent present, parentslot < parent->slotuse); "
-                             "found tests on %s" % (kind, atoms), fn.nloc(region))
-                continue
-            bad = None
-            nv = 0
-            for v, lf in dtable.table(leaves, None, atoms):
-                if lf["stop"][0] == "return":
-                    # the not-found return of the inner part
-                    continue
-                nv += 1
-                writes, props = [], []
-                for ev in lf["events"]:
-                    if ev[0] != "expr":
-                        continue
-                    e = strip_casts(ev[1])
-                    b = match.binop(e, ("=",))
-                    if b:
-                        ip = match.index_parts(b[1])
-                        if ip and match.field_of(ip[0]) and match.field_of(ip[0])[1] == "slotkey" and \
-                                roles.param_of(match.field_of(ip[0])[0]) == B.P_PARENT:
-                            writes.append((roles.param_of(ip[1]) == B.P_PSLOT, b[2]))
-                    if any(z["k"] == "DeclRefExpr" and z["ref"]["name"] == "btree_update_lastkey" for z in walk(e)) and \
-                            match.binop(e, ("|=",)):
-                        props.append(e)
-                trig = v[trigger]
-                direct = v["P"] and v["S"]
-                nonempty = v.get("N", True)
-                if not trig:
-                    want = "none"
-                elif direct:
-                    want = "write"
-                elif kind == "leaf" and not nonempty:
-                    want = "none"
-                else:
-                    want = "propagate"
-                got = "write" if writes else "propagate" if props else "none"
-                if writes and props:
-                    got = "both"
-                if got != want:
-                    bad = (v, "expected %s, found %s" % (want, got))
+
+def _one_check_sep_update(ck, tree, name):
+    fn = tree.one(name)
+    roles = B.Roles(fn)
+    loc = Locals(fn)
+    for region in B.find_underflow_ifs(fn):
+        rec = [z for z in walk(kids(region)[0]) if is_call(z, "is_underflow")][0]
+        kind = "leaf" if "LeafNode" in rec["callee"]["record"] else "inner"
+        holder = fn.parent(region)
+        stmts = kids(holder)
+        idx = [i for i, s in enumerate(stmts) if s is region][0]
+        # the statements between the removal / recursive call and the underflow handling
+        start = 0
+        for i, s in enumerate(stmts[:idx]):
+            if kind == "leaf" and s["k"] != "IfStmt" and any(slotuse_delta(z) not in (None, "set") for z in walk(s)):
+                start = i + 1
+            if kind == "inner" and any(is_call(z, name) for z in walk(s)):
+                start = i + 1
+        frag = {"k": "CompoundStmt", "ch": list(stmts[start:idx]), "id": -2}
+        trigger = "LAST" if kind == "leaf" else ("has", "btree_update_lastkey")
+        sig = "%s:%s" % (name, kind)
+        bad, nv = None, 0
+        for ps in (0, 1, 2):
+            for n in ((0, 1, 2) if kind == "leaf" else (1,)):
+                r = sep_model(fn, roles, loc, kind, frag, trigger, ps, n)
+                nv += r[1]
+                if r[0]:
+                    bad = r[0]
                     break
-                if writes:
-                    at_ps, rhs = writes[0]
-                    src_ok = key_source_ok(rhs, roles, kind)
-                    if not at_ps or not src_ok:
-                        bad = (v, "the separator written is parent->slotkey[%s] = %s; it must be parent->slotkey[parentslot] = %s"
-                               % ("parentslot" if at_ps else "?", dtable.describe(rhs),
-                                  "leaf->key(leaf->slotuse - 1)" if kind == "leaf" else "result.lastkey"))
-                        break
-                if props:
-                    srcs = [a for z in walk(props[0]) if z["k"] in ("CXXConstructExpr", "CXXTemporaryObjectExpr") and len(kids(z)) == 2
-                            for a in [kids(z)[1]]]
-                    if not srcs or not key_source_ok(srcs[0], roles, kind):
-                        bad = (v, "the key propagated upwards is not the new largest key of the subtree")
-                        break
-            sig = "%s:%s" % (name, kind)
             if bad:
-                ck.violation("SEP-UPDATE", fn.qname, sig, "in situation {%s}: %s — a stale separator misroutes later lookups and fails verify()"
-                             % (dtable.fmt_val({str(k): x for k, x in bad[0].items()}), bad[1]), fn.nloc(region))
-            else:
-                ck.ok("SEP-UPDATE", tree.where(fn, kind), "%d situations: separator written at parentslot or handed to the caller" % nv)
+                break
+        if bad:
+            ck.violation("SEP-UPDATE", fn.qname, sig, "in situation {%s}: %s — a stale separator misroutes later lookups and fails verify()"
+                         % (bad[0], bad[1]), fn.nloc(region))
+        else:
+            ck.ok("SEP-UPDATE", tree.where(fn, kind), "%d situations: separator written at parentslot or handed to the caller" % nv)
 
 
-def key_source_ok(e, roles, kind):
-    e = strip_casts(e)
+def sep_model(fn, roles, loc, kind, frag, trigger, ps, n):
+    """the fragment under one integer model (parentslot = ps, parent->slotuse = PN, fill of the leaf after the removal = n)
+    and every valuation of the remaining atoms -> ((situation, message) or None, number of situations)"""
+    registry = {}
+
+    def ival(e, env, depth=0):
+        c = const_int(e)
+        if c is not None:
+            return c
+        e = strip_casts(e)
+        if e is None or depth > 6:
+            return None
+        if e["k"] == "ParenExpr":
+            return ival(kids(e)[0], env, depth + 1)
+        if e["k"] == "DeclRefExpr":
+            if roles.param_of(e) == B.P_PSLOT:
+                return ps
+            d = e["ref"]["id"]
+            if isinstance(env.get(d), dict) and d not in loc.written:
+                return ival(env[d], env, depth + 1)
+            return None
+        f = match.field_of(e)
+        if f and f[1] == "slotuse":
+            p = roles.param_of(f[0])
+            if p == B.P_PARENT:
+                return PN
+            if p == B.P_CURR and kind == "leaf":
+                return n
+            return None
+        b = match.binop(e, ("+", "-", "*"))
+        if b and e["k"] == "BinaryOperator":
+            x, y = ival(b[1], env, depth + 1), ival(b[2], env, depth + 1)
+            if x is None or y is None:
+                return None
+            return x + y if b[0] == "+" else x - y if b[0] == "-" else x * y
+        return None
+
+    def atomize(nd, run):
+        n0 = nd
+        n1 = strip_casts(nd)
+        pt = match.ptr_truth(n0) or match.ptr_truth(n1)
+        if pt is not None and roles.param_of(pt) == B.P_PARENT:
+            return "P", False
+        b = match.binop(n1, ("<", ">=", "==", "!=", ">", "<="))
+        if b:
+            op, l, r = b
+            if op in ("==", "!="):
+                for x, y in ((l, r), (r, l)):
+                    if B.is_null(y) and roles.param_of(x) == B.P_PARENT and "*" in (strip_casts(x).get("ty") or ""):
+                        return "P", op == "=="
+            x, y = ival(l, run.env), ival(r, run.env)
+            if x is not None and y is not None:
+                return {"<": x < y, ">=": x >= y, "==": x == y, "!=": x != y, ">": x > y, "<=": x <= y}[op]
+            if op in ("==", "!=") and kind == "leaf":
+                for u, w in ((l, r), (r, l)):
+                    fw = match.field_of(w)
+                    if fw and fw[1] == "slotuse" and roles.param_of(fw[0]) == B.P_CURR and ref_of(u) is not None and \
+                            roles.param_of(u) is None:
+                        return "LAST", op == "!="
+        if is_call(n1, "has"):
+            flags = [z["ref"]["name"] for z in walk(n1) if z["k"] == "DeclRefExpr" and z["ref"]["name"].startswith("btree_")]
+            if flags:
+                return ("has", flags[0]), False
+        return opaque_atom(nd, registry)
+
+    def relevant(key):
+        nd = registry.get(key)
+        for z in walk(nd):
+            if z["k"] == "DeclRefExpr" and roles.param_of(z) in (B.P_PARENT, B.P_PSLOT):
+                return True
+            f = match.field_of(z) if z["k"] == "MemberExpr" else None
+            if kind == "leaf" and f and f[1] == "slotuse" and roles.param_of(f[0]) == B.P_CURR:
+                return True
+            if kind == "inner" and (z["k"] == "MemberExpr" and z.get("member") in ("lastkey", "flags")):
+                return True
+        return False
+    leaves = dtable.explore(frag, with_bool_cmp(atomize), fn)
+    atoms = dtable.atoms_of(leaves)
+    for a in (trigger, "P"):
+        if a not in atoms:
+            atoms.append(a)
+    nv = 0
+    for v, lf in dtable.table(leaves, None, atoms):
+        if lf["stop"][0] == "return":
+            continue          # the not-found return of the inner part
+        nv += 1
+        env = lf["run"].env
+        writes, props, unknown = [], [], []
+        for i, what, root in path_roots(lf):
+            if what == "loop":
+                if mentions_ref(root, "btree_update_lastkey") or mentions_member(root, "slotkey"):
+                    unknown.append(root)
+                continue
+            if what != "expr":
+                continue
+            e = strip_casts(loc.expand(root, env))
+            b = match.binop(e, ("=",))
+            ip = match.index_parts(b[1]) if b else None
+            if ip and match.field_of(ip[0]) and match.field_of(ip[0])[1] == "slotkey" and \
+                    roles.param_of(match.field_of(ip[0])[0]) == B.P_PARENT:
+                writes.append((ip[1], b[2], e))
+            elif mentions_ref(e, "btree_update_lastkey") and match.binop(e, ("|=",)):
+                props.append(e)
+            elif mentions_ref(e, "btree_update_lastkey") or any(
+                    z["k"] == "MemberExpr" and z.get("member") == "slotkey" and roles.param_of(kids(z)[0]) == B.P_PARENT for z in walk(e)):
+                unknown.append(e)
+            elif any(is_call(z) and not is_call(z, "key", "has", "free_node") and z["k"] not in ("CXXConstructExpr", "CXXTemporaryObjectExpr") and
+                     any(roles.param_of(a) == B.P_PARENT and "*" in (strip_casts(a).get("ty") or "") for a in kids(z)) for z in walk(e)):
+                unknown.append(e)                 # the parent is handed to a function that is not followed
+            elif match.binop(e, ("|=",)) and any(is_call(z) and z["k"] not in ("CXXConstructExpr", "CXXTemporaryObjectExpr") and
+                                                 not z["callee"]["name"].startswith("operator") for z in walk(match.binop(e, ("|=",))[2])):
+                unknown.append(e)                 # a result merged in from a call that is not followed
+        trig = v[trigger]
+        direct = v["P"] and ps < PN
+        if not trig:
+            want = "none"
+        elif direct:
+            want = "write"
+        elif kind == "leaf" and n == 0:
+            want = "none"
+        else:
+            want = "propagate"
+        got = "both" if writes and props else "write" if writes else "propagate" if props else "none"
+        sit = dict(v)
+        sit["parentslot=%d,parent->slotuse=%d%s" % (ps, PN, (",leaf->slotuse=%d" % n) if kind == "leaf" else "")] = True
+        sit = dtable.fmt_val({str(k): x for k, x in sit.items() if not (isinstance(k, tuple) and k[0] == "other")})
+        murky = [k for k in other_atoms(lf["val"]) if relevant(k)]
+        never_seen = [a for a in (trigger,) if not any(a in l2["val"] for l2 in leaves)]
+
+        def contradiction(msg, at=None):
+            # evidence only if every decision and every separator operation on the path was understood
+            if unknown:
+                und(fn, unknown[0], "separator maintenance: %s is not understood (%s)" % (dtable.describe(unknown[0]), msg))
+            if murky:
+                und(fn, registry[murky[0]], "separator maintenance: the path is decided by %s, which is not understood (%s)" % (murky[0][1], msg))
+            if never_seen and other_atoms(lf["val"]):
+                und(fn, None, "separator maintenance: the test for 'largest key changed' was not recognised (%s)" % msg)
+            return (sit, msg)
+        if got != want:
+            return contradiction("expected %s, found %s" % (want, got)), nv
+        if writes:
+            index, rhs, e = writes[0]
+            iv = ival(index, env)
+            if iv is None:
+                und(fn, e, "separator maintenance: index of %s not understood" % dtable.describe(e))
+            src = key_source(rhs, roles, kind, lambda x: ival(x, env), n)
+            if src is None:
+                und(fn, e, "separator maintenance: the key written by %s is not understood" % dtable.describe(e))
+            if iv != ps or not src:
+                return contradiction("the separator written is parent->slotkey[%s] = %s; it must be parent->slotkey[parentslot] = %s"
+                                     % ("parentslot" if iv == ps else dtable.describe(index), dtable.describe(rhs),
+                                        "leaf->key(leaf->slotuse - 1)" if kind == "leaf" else "result.lastkey")), nv
+        if props:
+            srcs = [kids(z)[1] for z in walk(props[0]) if z["k"] in ("CXXConstructExpr", "CXXTemporaryObjectExpr") and len(kids(z)) == 2]
+            if not srcs:
+                und(fn, props[0], "separator maintenance: the key handed upwards by %s is not understood" % dtable.describe(props[0]))
+            src = key_source(srcs[0], roles, kind, lambda x: ival(x, env), n)
+            if src is None:
+                und(fn, props[0], "separator maintenance: the key handed upwards by %s is not understood" % dtable.describe(props[0]))
+            if not src:
+                return contradiction("the key propagated upwards is not the new largest key of the subtree"), nv
+    return None, nv
+
+
+def key_source(e, roles, kind, ival, n):
+    """True: e is the new largest key of the subtree; False: it is recognisably another key; None: not understood"""
+    e = match.strip_conv(e)
     if kind == "inner":
         f = match.field_of(e)
-        return f is not None and f[1] == "lastkey"
-    if "callee" in e and e["callee"]["name"] == "key" and e.get("member_call"):
+        if f is not None and f[1] == "lastkey":
+            return True
+        return None
+    if is_call(e, "key") and e.get("member_call") and len(kids(e)) == 2:
         if roles.param_of(kids(e)[0]) != B.P_CURR:
-            return False
-        idx = strip_casts(kids(e)[1])
-        b = match.binop(idx, ("-",))
-        return bool(b and match.field_of(b[1]) and match.field_of(b[1])[1] == "slotuse" and
-                    roles.param_of(match.field_of(b[1])[0]) == B.P_CURR and const_int(b[2]) == 1)
-    return False
+            return False if roles.param_of(kids(e)[0]) is not None else None
+        iv = ival(kids(e)[1])
+        if iv is None:
+            return None
+        return iv == n - 1
+    return None
 
 
 # ------------------------------------------------------------------ results of the rebalancing primitives are kept
 def check_result_kept(ck, tree):
+    guarded(ck, "RESULT-KEPT", lambda: check_results_used(ck, tree))
+    guarded(ck, "RESULT-KEPT", lambda: check_merge_reports(ck, tree))
+
+
+def check_results_used(ck, tree):
     for name in ("erase_one_descend", "erase_iter_descend"):
         fn = tree.one(name)
         n = 0
@@ -822,21 +2114,128 @@ def check_result_kept(ck, tree):
             while par is not None and par["k"] in ("ImplicitCastExpr", "ParenExpr", "CXXConstructExpr", "CXXBindTemporaryExpr",
                                                    "MaterializeTemporaryExpr", "ExprWithCleanups"):
                 par = fn.parent(par)
+            # positive evidence: the call is a discarded-value expression statement
             used = par is not None and par["k"] not in ("CompoundStmt", "IfStmt", "WhileStmt", "ForStmt")
             if par is not None and par["k"] == "IfStmt" and kids(par)[0] is not None and any(x is z for x in walk(kids(par)[0])):
+                used = True
+            if par is not None and par["k"] in ("WhileStmt", "ForStmt") and not any(x is z for x in walk(match.loop_parts(par)[3])):
                 used = True
             if not used:
                 ck.violation("RESULT-KEPT", fn.qname, "%s:%s" % (name, z["callee"]["name"]),
                              "the result of %s() is dropped: the parent never learns that a node was emptied (btree_fixmerge) or that the "
                              "largest key changed (btree_update_lastkey)" % z["callee"]["name"], fn.nloc(z))
         ck.ok("RESULT-KEPT", tree.where(fn), "%d result_t-returning calls, none discarded" % n)
+
+
+def check_merge_reports(ck, tree):
     for name, flag in (("merge_leaves", "btree_fixmerge"), ("merge_inner", "btree_fixmerge")):
         fn = tree.one(name)
+        loc = Locals(fn)
         rets = [r for r in walk(fn.body) if r["k"] == "ReturnStmt"]
-        if not rets or not all(any(z["k"] == "DeclRefExpr" and z["ref"]["name"] == flag for z in walk(r)) for r in rets):
-            ck.violation("RESULT-KEPT", fn.qname, name, "%s() must report %s so that the parent frees the emptied node" % (name, flag), fn.loc)
+        if not rets:
+            raise ir.AnalysisBroken("%s: no return statement" % fn.full)
+        bad = None
+        for r in rets:
+            e = loc.expand(kids(r)[0]) if kids(r) else None
+            if e is not None and mentions_ref(e, flag):
+                continue
+            # closed world: the returned value is built from enumeration constants only, and the flag is not among them
+            opaque = [z for z in walk(e) if (z["k"] == "DeclRefExpr" and z["ref"].get("kind") != "enumconst") or
+                      (is_call(z) and z["k"] not in ("CXXConstructExpr", "CXXTemporaryObjectExpr"))] if e is not None else [r]
+            if opaque:
+                und(fn, r, "%s(): the value returned (%s) is not understood" % (name, dtable.describe(e)))
+            bad = r
+            break
+        if bad is not None:
+            ck.violation("RESULT-KEPT", fn.qname, name, "%s() must report %s so that the parent frees the emptied node" % (name, flag), fn.nloc(bad))
         else:
             ck.ok("RESULT-KEPT", tree.where(fn), "returns " + flag)
+
+
+# ------------------------------------------------------------------ the shared underflow table reads calls from expression statements
+def check_underflow(ck, tree, fn):
+    """B.check_underflow collects the rebalancing calls from the expression statements of a path.  A result that was given a
+    name (`result_t r = merge_leaves(...); myres |= r;`) is presented to it as `result_t r; r = merge_leaves(...);`; a
+    rebalancing call in any other non-statement position cannot be presented and is not decided."""
+    import copy
+    todo = []
+    for region in B.find_underflow_ifs(fn):
+        for z in walk(region):
+            if not is_call(z, *B.REBAL):
+                continue
+            par = fn.parent(z)
+            while par is not None and not (par["k"].endswith("Stmt") or par["k"] == "VarDecl"):
+                par = fn.parent(par)
+            if par is None or par["k"] in ("CompoundStmt", "IfStmt") and not (par["k"] == "IfStmt" and any(x is z for x in walk(kids(par)[0]))):
+                continue
+            if par["k"] == "VarDecl" and fn.parent(par) is not None and fn.parent(par)["k"] == "DeclStmt" and len(kids(fn.parent(par))) == 1 \
+                    and fn.parent(fn.parent(par)) is not None and fn.parent(fn.parent(par))["k"] == "CompoundStmt":
+                todo.append(par)
+            else:
+                und(fn, z, "%s() is called inside a %s; the underflow table only follows expression statements" % (z["callee"]["name"], par["k"]))
+    def rebal_cond(stmt):
+        """a ConditionalOperator inside the expression statement stmt whose arms contain rebalancing calls"""
+        if stmt is None or stmt["k"].endswith("Stmt"):
+            return None
+        for q in walk(stmt):
+            if q["k"] == "ConditionalOperator" and any(is_call(x, *B.REBAL) for a in kids(q)[1:] for x in walk(a)):
+                return q
+        return None
+    conds = [r for region in B.find_underflow_ifs(fn) for r in walk(region)
+             if r["k"] in ("CompoundStmt", "IfStmt") and any(rebal_cond(c) is not None for c in (kids(r) if r["k"] == "CompoundStmt" else kids(r)[1:]))]
+    if not todo and not conds:
+        return B.check_underflow(ck, tree, fn)
+    ids = {v["id"] for v in todo}
+
+    def replace_node(n, target, repl):
+        if n is target:
+            return repl
+        if n is None or "ch" not in n:
+            return n
+        out = dict(n)
+        out["ch"] = [replace_node(c, target, repl) for c in n["ch"]]
+        return out
+
+    def split_cond(stmt, depth=0):
+        q = rebal_cond(stmt) if depth < 4 else None
+        if q is None:
+            return stmt
+        c, a, b = kids(q)
+        return {"k": "IfStmt", "id": fresh(), "l": stmt.get("l"), "ch": [c, split_cond(replace_node(stmt, q, a), depth + 1),
+                                                                     split_cond(replace_node(stmt, q, b), depth + 1)]}
+    counter = [0]
+
+    def fresh():
+        counter[0] -= 1
+        return counter[0] - 1000
+
+    def rewrite(n):
+        if n is None or "ch" not in n:
+            return n
+        out = dict(n)
+        ch = []
+        for c in n["ch"]:
+            if c is not None and c["k"] == "DeclStmt" and len(kids(c)) == 1 and kids(c)[0] is not None and kids(c)[0].get("id") in ids:
+                v = kids(c)[0]
+                bare = dict(v)
+                bare["ch"] = []
+                d2 = dict(c)
+                d2["ch"] = [bare]
+                ref = {"k": "DeclRefExpr", "id": fresh(), "l": v.get("l"), "ty": v.get("ty"), "lv": True,
+                       "ref": {"id": v["did"], "name": v.get("name"), "kind": "local"}}
+                asg = {"k": "BinaryOperator", "op": "=", "id": fresh(), "l": v.get("l"), "ty": v.get("ty"), "ch": [ref, rewrite(kids(v)[0])]}
+                ch += [d2, split_cond(asg)]
+            elif n["k"] in ("CompoundStmt", "IfStmt") and not (n["k"] == "IfStmt" and c is n["ch"][0]) and rebal_cond(c) is not None:
+                ch.append(split_cond(c))
+            else:
+                ch.append(rewrite(c))
+        out["ch"] = ch
+        return out
+    fn2 = copy.copy(fn)
+    fn2.body = rewrite(fn.body)
+    fn2._byid = None
+    fn2._parent = None
+    return B.check_underflow(ck, tree, fn2)
 
 
 # ------------------------------------------------------------------ driver
@@ -851,29 +2250,34 @@ def run(ck):
         "under the operation's own success flag; removing the largest key of a leaf writes the parent's separator or hands the key upwards in "
         "every situation; every consistent underflow situation is resolved by one legal merge/shift with the correct separator slot; "
         "is_full/is_few/is_underflow fit the node's own capacity; no rebalancing result is dropped. Balance, fill and key order after each step "
-        "of a history are value-dependent and not decided.")
+        "of a history are value-dependent and not decided. A violation is reported only with a counterexample (path, valuation, evaluated "
+        "state); code the rules do not understand yields 'cannot decide'.")
     ck.assumptions += [
         "B+ tree shape facts used to prune impossible underflow situations (see C01)",
         "the alias model treats the successor/tail pointers as one symbolic node that may be null; element moves inside loops do not touch chain pointers (checked)",
+        "SEP-UPDATE evaluates integer tests on the model parent->slotuse = 2, parentslot in 0..2, leaf fill after removal in 0..2",
     ]
     n_trees = 0
     for cfg, tu in B.load(ck.tier):
         ts = B.trees(tu)
         n_trees += len(ts)
         for t in ts:
-            check_alloc_owner(ck, t)
-            check_free_on_unlink(ck, t)
-            check_clear(ck, t)
-            check_assign(ck, t)
-            check_swap(ck, tu, t)
-            check_size(ck, t)
-            check_leafchain(ck, t)
-            check_sep_update(ck, t)
-            check_result_kept(ck, t)
-            for name in ("erase_one_descend", "erase_iter_descend"):
-                B.check_underflow(ck, t, t.one(name))
+            for what, thunk in (
+                    ("NODE-ALLOC-OWNER", lambda: check_alloc_owner(ck, t)),
+                    ("FREE-ON-UNLINK", lambda: check_free_on_unlink(ck, t)),
+                    ("ROOT-COLLAPSE", lambda: check_root_collapse(ck, t)),
+                    ("CLEAR-RESET/CHILD-RANGE", lambda: check_clear(ck, t)),
+                    ("ASSIGN-ORDER", lambda: check_assign(ck, t)),
+                    ("SWAP-COMPLETE", lambda: check_swap(ck, tu, t)),
+                    ("SIZE-PAIR", lambda: check_size(ck, t)),
+                    ("LEAFCHAIN-SPLICE", lambda: check_leafchain(ck, t)),
+                    ("SEP-UPDATE", lambda: check_sep_update(ck, t)),
+                    ("RESULT-KEPT", lambda: check_result_kept(ck, t)),
+                    ("UNDERFLOW-LEGAL", lambda: check_underflow(ck, t, t.one("erase_one_descend"))),
+                    ("UNDERFLOW-LEGAL", lambda: check_underflow(ck, t, t.one("erase_iter_descend")))):
+                guarded(ck, what, thunk)
             if t.small:
-                B.check_capacity(ck, t, cfg)
+                ck.guarded(lambda: B.check_capacity(ck, t, cfg))
                 ck.guarded(lambda: btprim.check_primitives(ck, t, cfg))
                 ck.guarded(lambda: btprim.check_insert(ck, tu, t, cfg))
                 ck.guarded(lambda: btprim.check_erase(ck, tu, t, cfg))
